@@ -23,6 +23,27 @@ Third round (Gen/Nodelist.v, Gen/Sweep.v, Gen/Split.v; the tables and comments m
   * dicts keyed by segment value as association lists, through a fixed set of idioms ('DICT'); `x = l.pop(0)`, the
     element-wise update loops as maps (elementwise_idioms).
 Everything outside these shapes is Untranslatable, as before.
+
+Fourth round (Gen/CurveCurve.v, Gen/MinDist.v, Gen/Winding.v; the tables and comments marked `round 4` below):
+  * self-recursive methods as a `Fixpoint` on fuel (RECURSIVE: fuel = the recursion depth still allowed, None = it ran out; the
+    result type and the abstract parameters are declared and checked); `assert <run-time test>` as `Raises PyAssertionError`,
+    a BoundingBox whose corners may still be None used as a box as `Raises PyNoneError` (the two constructors added to `pyexc`);
+    an `and` whose later operands may raise, as an `outcome bool`; an `if` with effectful branches followed by more code joined
+    through the outcome of its branches instead of duplicating the continuation (only in the functions of JOIN_EFFECTS);
+  * an attribute set on a freshly created segment (`c11._range = [lo, hi]`) as the record `ranged` (('RNG', segtype)); a segment as
+    its constructor made it has the range its __init__ sets; a float parameter that is a translation-time constant ('KF'),
+    `Decimal(str(<it>)).as_tuple().exponent` evaluated at translation time, `"%.<d>f" % x` as an abstract parameter
+    `fmt_<d>f : T -> K` of the definition together with the equality `keq` of its results ('STR'; any other `%` is
+    Untranslatable), `Y = filter(F, L); return Y` with F a local function updating a local dict as a fold (filter_idiom), the
+    lazy result as ('IT', t): only consumed once, where it is produced;
+  * a method of an object with mutable attributes as a state-passing function (STATEFUL: the result is (value, new state)),
+    what else they read of the object (len() of an attribute, other methods) as parameters of the definition (OBJECTS), `range()` of
+    run-time ints, loops nested in a loop whose body may raise, accumulators that start as None, `min(list, key=lambda)`,
+    narrowing of an Optional through `X and ..` / `not X or ..`, None as an operand of arithmetic as `Raises PyNoneError`;
+  * Intersection objects that keep their seg1 ('IXS', the _ixs variants of the functions that build them, IXS_ROOTS), dicts keyed
+    by Point values (dict_key_P), `d.values()`, `box.extend(<segment>)` and mutators of a box whose corners may be unset,
+    `int(math.copysign(<k>, x))` and counters that only ever hold ints as Z, `%` of a run-time int.
+Everything outside these shapes is Untranslatable, as before.
 """
 import ast, sys, os, hashlib, json
 from fractions import Fraction
@@ -56,6 +77,7 @@ SEGTY = {2: 'seg2', 3: 'seg3', 4: 'seg4'}
 CLASS_OF = {'P': 'Point', 'seg2': 'Line', 'seg3': 'QuadraticBezier', 'seg4': 'CubicBezier',
             'M': 'AffineTransformation', 'BB': 'BoundingBox', 'PATH': 'BezierPath',
             'NODE': 'Node', 'SREP': 'SegmentRepresentation'}
+OBJ_CLASSES = ('MinimumCurveDistanceFinder',)      # round 4: classes modelled as ('OBJ', cls, abs) values, see OBJECTS
 # 'PATH': a BezierPath as the list of its segments, `list (segment T)` (what asSegments() returns; the Nodelist representation
 # and the conversion inside asSegments are outside the model).  'SEG': one element of it, the sum type `segment T`: attribute
 # access and method calls on it dispatch on the constructor to the definitions generated for the three classes.
@@ -63,20 +85,27 @@ SEGSUM = [('SLine', 'seg2'), ('SQuad', 'seg3'), ('SCubic', 'seg4')]
 TY_OF_CLASS = {v: k for k, v in CLASS_OF.items()}
 PFX = {'Point': 'Point', 'Line': 'Line', 'QuadraticBezier': 'Quad', 'CubicBezier': 'Cubic',
        'AffineTransformation': 'Affine', 'BoundingBox': 'BBox', 'CurveFit': 'CurveFit', 'BezierPath': 'Path',
-       'Node': 'Node', 'SegmentRepresentation': 'SegRep'}
+       'Node': 'Node', 'SegmentRepresentation': 'SegRep', 'MinimumCurveDistanceFinder': 'curvedistance'}
 FILE_OF = {'Point': 'Point', 'Line': 'Line', 'QuadraticBezier': 'Quad', 'CubicBezier': 'Cubic',
            'AffineTransformation': 'Affine', 'BoundingBox': 'BBox', 'utils': 'Utils', 'curvedistance': 'CurveDist',
            'geometricshapes': 'Shapes', 'curvefitter': 'Fit', 'CurveFit': 'Fit', 'BezierPath': 'Sample',
-           'Node': 'Nodelist', 'SegmentRepresentation': 'Nodelist', 'linesweep': 'Sweep'}
-FILE_ORDER = ['Utils', 'Point', 'Affine', 'BBox', 'Line', 'Quad', 'Cubic', 'Shapes', 'Fit', 'CurveDist', 'Sample', 'Nodelist', 'Sweep', 'Split']
+           'Node': 'Nodelist', 'SegmentRepresentation': 'Nodelist', 'linesweep': 'Sweep',
+           'MinimumCurveDistanceFinder': 'MinDist'}
+FILE_ORDER = ['Utils', 'Point', 'Affine', 'BBox', 'Line', 'Quad', 'Cubic', 'Shapes', 'Fit', 'CurveDist', 'Sample', 'Nodelist', 'Sweep', 'Split',
+              'CurveCurve', 'MinDist', 'Winding']
 # leaves of the import graph: no other generated file imports them (so adding one leaves the text of the others unchanged)
-LEAF_FILES = {'Shapes', 'Fit', 'Sample', 'Nodelist', 'Sweep', 'Split'}
+LEAF_FILES = {'Shapes', 'Fit', 'Sample', 'Nodelist', 'Sweep', 'Split', 'CurveCurve', 'MinDist', 'Winding'}
 # ... except for the ones named here (the types `outcome` / `pyexc` and the list helpers live in the prelude of Gen/Sample.v)
-EXTRA_DEPS = {'Nodelist': ['Sample'], 'Sweep': ['Sample', 'Nodelist']}
+EXTRA_DEPS = {'Nodelist': ['Sample'], 'Sweep': ['Sample', 'Nodelist'], 'CurveCurve': ['Sample', 'Split'], 'MinDist': ['Sample'],
+              'Winding': ['Sample', 'Nodelist', 'Split', 'CurveCurve']}
 # methods emitted into another file than the one of the receiver's class (keyed by the DEFINING class)
 FILE_OF_DEFCLASS = {'SampleMixin': 'Sample'}
 # ... or keyed by the method name (the flatteners call the sampling methods, so they live with them)
-FILE_OF_METHOD = {'flatten': 'Sample', 'splitAtPoints': 'Split', 'addExtremes': 'Split'}
+FILE_OF_METHOD = {'flatten': 'Sample', 'splitAtPoints': 'Split', 'addExtremes': 'Split',
+                  '_curve_curve_intersections_t': 'CurveCurve', '_curve_curve_intersections': 'CurveCurve', 'intersections': 'CurveCurve',
+                  'curveDistance': 'MinDist', 'windingNumberOfPoint': 'Winding', 'pointIsInside': 'Winding', 'addMargin': 'Winding'}
+# ... or by the class and the name (BezierPath.bounds; Segment.bounds stays with its class)
+FILE_OF_CLASS_METHOD = {('BezierPath', 'bounds'): 'Winding'}
 # modules whose module-level constants are emitted as named definitions (elsewhere they are inlined at the use)
 NAMED_GLOBAL_MODULES = {'path/geometricshapes.py'}
 MODULE_OF_CLASS = {'Point': 'point.py', 'Line': 'line.py', 'QuadraticBezier': 'quadraticbezier.py',
@@ -84,9 +113,10 @@ MODULE_OF_CLASS = {'Point': 'point.py', 'Line': 'line.py', 'QuadraticBezier': 'q
                    'AffineTransformation': 'affinetransformation.py', 'BoundingBox': 'boundingbox.py',
                    'ArcLengthMixin': 'utils/arclengthmixin.py', 'IntersectionsMixin': 'utils/intersectionsmixin.py',
                    'SampleMixin': 'utils/samplemixin.py', 'CurveFit': 'utils/curvefitter.py', 'BezierPath': 'path/__init__.py',
-                   'Node': 'path/representations/Nodelist.py', 'SegmentRepresentation': 'path/representations/Segment.py'}
+                   'Node': 'path/representations/Nodelist.py', 'SegmentRepresentation': 'path/representations/Segment.py',
+                   'MinimumCurveDistanceFinder': 'utils/curvedistance.py'}
 MRO = {'BezierPath': ['BezierPath', 'SampleMixin'],     # BooleanOperationsMixin (pyclipper) is outside the model
-       'Node': ['Node'], 'SegmentRepresentation': ['SegmentRepresentation'],
+       'Node': ['Node'], 'SegmentRepresentation': ['SegmentRepresentation'], 'MinimumCurveDistanceFinder': ['MinimumCurveDistanceFinder'],
        'Point': ['Point'], 'AffineTransformation': ['AffineTransformation'], 'BoundingBox': ['BoundingBox'], 'CurveFit': ['CurveFit'],
        'Line': ['Line', 'Segment', 'IntersectionsMixin', 'SampleMixin'],
        'QuadraticBezier': ['QuadraticBezier', 'ArcLengthMixin', 'Segment', 'IntersectionsMixin', 'SampleMixin'],
@@ -122,7 +152,8 @@ RECORD_OF_CLASS = {v[0]: k for k, v in RECORDS.items()}
 #   if k in d: x = d[k]; ...                      match dict_get d k with Some x => .. | None => <else> end.  x ALIASES the stored
 #       list: the body may update x in place (x.pop(0), x[i] = e) and must not mention d; when it ends the model stores x back
 #       under the key as it was when x was read (d[k0] = x), and x must not be used afterwards
-KEYEQ = {'SEG': '(segment_keyeq O)'}
+KEYEQ = {'SEG': '(segment_keyeq O)', 'STR': 'keq',      # round 4: 'STR', the strings an abstract format parameter produces;
+         'P': '(point_keyeq O)'}                          # Points: equal hashes (equal coordinates) and Point.__eq__, see dict_key_P
 # ---- round 3: the sweep (utils/linesweep.py) ------------------------------------------------------------------------------------
 # ('DQ', t): a collections.deque of t, a Coq list (append at the right end, popleft at the left one).
 # 'SHAPE': an element of the collections handed to bbox_intersections, `shape T := (nat * bbox T)`: an object of which the sweep
@@ -133,6 +164,60 @@ KEYEQ = {'SEG': '(segment_keyeq O)'}
 #   ("cells") of the function being translated -- with two candidates a bool, true = the first in order of definition.
 #   The static forms are the constants ('localfun', f) and ('cellref', c).
 
+# ---- round 4: the recursive drivers (utils/intersectionsmixin.py, utils/curvedistance.py) ---------------------------------------------
+# ('RNG', t), t in seg3 / seg4: a curved segment together with its `_range` attribute (a list of exactly two numbers), the record
+#   `ranged (segN T) T` of the prelude of Gen/CurveCurve.v.  A local variable becomes one by `x._range = [lo, hi]` on a segment
+#   that splitAtTime has just created (range_assign); a segment as its constructor made it has the range its __init__ sets
+#   (whole_range).  Everything but `._range` is delegated to the segment.
+# 'STR': the result of `"%.<d>f" % x`: a value of the abstract type K, produced by the parameter fmt_<d>f and compared by keq.
+# ('IT', t): the lazy iterator `filter(..)` returns, as the list of the items it will produce; it may only be consumed once, at
+#   the place where the call that returns it stands (the argument of .extend, the iterable of a comprehension / for).
+# 'KF' in a signature: a float argument whose value is known at translation time (the definition is specialised on it; the
+#   value of the parameter's default leaves no trace in the name).
+# self-recursive methods: key -> (declared type of the value returned, formats of the abstract parameters it takes).  The
+# definition is a Fixpoint on `fuel` -- here the number of nested calls still allowed: None = it ran out (CPython: RecursionError,
+# at a depth that is not modelled) -- so 'fuel' must be among its declared effects.  A recursive call passes the predecessor.
+_TT = ('T', ('S', 'S'))
+RECURSIVE = {('QuadraticBezier', '_curve_curve_intersections_t'): {'ret': ('IT', _TT), 'formats': ['%.2f']},
+             ('CubicBezier', '_curve_curve_intersections_t'): {'ret': ('IT', _TT), 'formats': ['%.2f']}}
+# An object with mutable attributes whose methods are translated in state-passing style: a value of type ('OBJ', cls, abs).
+#   'state':  the mutable attributes and their types; the Coq value is the tuple of them (for the finder: `(option T * Z)`,
+#             self.bestAlpha and self.iterations).  Assignments `self.a = e` give a new value of the object.
+#   'abstract': what else the methods read of the object, as PARAMETERS of the definitions generated for them (`abs`, the third
+#             component of the type, is the tuple of the Coq texts passed for them: the definition's own parameters inside it,
+#             the instances built from the constructor's arguments at `MinimumCurveDistanceFinder(bez1, bez2)`):
+#               ('len', attr, name)            len(self.<attr>), a run-time int
+#               ('method', m, name, argtypes, result)   self.<m>(..): a function; a result ('X', t) may raise (`outcome`)
+#             S and D themselves are generated per pair of classes in Gen/CurveDist.v (memo caches stripped); D is tabulated over the
+#             indices minDist reads and FAILS (Raises PyIndexError: never a guess) outside the table, as Dtab of Hand/MinDist.v.
+#   'ignored': attributes only the abstracted methods use (the memo caches); the constructor must set them to {}.
+OBJECTS = {'MinimumCurveDistanceFinder': {
+    'state': [('bestAlpha', ('O', 'S')), ('iterations', 'Z')],
+    'abstract': [('len', 'bez1', 'v_len1'), ('len', 'bez2', 'v_len2'),
+                 ('method', 'S', 'S_', ('S', 'S'), 'S'), ('method', 'D', 'D_', ('Z', 'Z'), ('X', 'S'))],
+    'ignored': ['dCache', 'sCache']}}
+# methods that update the attributes of their receiver AND return a value: the result is the pair (value, new state); a call is
+# only translated as the right-hand side of an assignment (the receiver, a local variable, is rebound to the new state)
+STATEFUL = {('MinimumCurveDistanceFinder', 'minDist')}
+RECURSIVE[('MinimumCurveDistanceFinder', 'minDist')] = {'ret': ('T', ('S', 'S', 'S')), 'formats': []}
+# 'IXS': an Intersection object together with its attribute seg1, `(segment T * (T * pt T * T))`.  The earlier rounds' 'IX' drops the
+# two segments (nothing read them).  windingNumberOfPoint reads `i.seg1`: while it is translated (IXS_ROOTS) the functions that build
+# Intersections (IXS_FUNCTIONS) are translated once more, into Gen/Winding.v under the suffix _ixs, with Intersection(..) as an 'IXS'.
+IXS_ROOTS = {('BezierPath', 'windingNumberOfPoint')}
+IXS_FUNCTIONS = {'intersections', '_curve_line_intersections', '_line_line_intersections'}
+# functions in which an `if` whose branches consume fuel / may raise, followed by more code, is joined through the outcome of
+# the branches (`match (if c then .. else ..) with Some (Returns <the variables they assign>) => <the rest> ..`) instead of
+# continuing each branch by a copy of the rest (what the earlier rounds do; their text must not change)
+JOIN_EFFECTS = {('QuadraticBezier', '_curve_curve_intersections_t'), ('CubicBezier', '_curve_curve_intersections_t'),
+                ('MinimumCurveDistanceFinder', 'minDist')}
+
+
+def obj_type(cls, abs_texts): return ('OBJ', cls, tuple(abs_texts))
+def obj_state_type(cls): return ('T', tuple(t for _, t in OBJECTS[cls]['state'])) if len(OBJECTS[cls]['state']) > 1 else OBJECTS[cls]['state'][0][1]
+def abs_coqty(a):
+    if a[0] == 'len': return 'Z'
+    return '(' + ' -> '.join([coqty(t) for t in a[3]] + [coqty(a[4])]) + ')'
+
 
 def tmatch(a, b):
     """type equality up to the wildcard '?' (element type of an empty literal list); returns the more specific type or None"""
@@ -140,7 +225,7 @@ def tmatch(a, b):
     if a == '?': return b
     if b == '?': return a
     if isinstance(a, tuple) and isinstance(b, tuple) and a[0] == b[0]:
-        if a[0] in ('L', 'O', 'F', 'X', 'DQ'):
+        if a[0] in ('L', 'O', 'F', 'X', 'DQ', 'IT'):
             m = tmatch(a[1], b[1])
             return (a[0], m) if m is not None else None
         if a[0] == 'T' and len(a[1]) == len(b[1]):
@@ -164,6 +249,7 @@ def coqty(t):
     if t == 'EDGE': return '(seg2 T * option (segment T))%type'
     if t == 'PATH': return 'list (segment T)'
     if t == 'IX': return '(T * pt T * T)%type'
+    if t == 'IXS': return '(segment T * (T * pt T * T))%type'
     if t == 'NT': return 'nodetype'
     if t == 'NODE': return 'gnode T'
     if t == 'SREP': return 'segrep T'
@@ -171,8 +257,11 @@ def coqty(t):
     if t == 'Z': return 'Z'
     if t == 'SHAPE': return 'shape T'
     if t == 'UNIT': return 'unit'
+    if t == 'STR': return 'K'
     if isinstance(t, tuple):
-        if t[0] in ('L', 'DQ'): return f'list ({coqty(t[1])})'
+        if t[0] == 'RNG' and t[1] in ('seg3', 'seg4'): return f'ranged ({coqty(t[1])}) T'
+        if t[0] == 'OBJ': return coqty(obj_state_type(t[1]))
+        if t[0] in ('L', 'DQ', 'IT'): return f'list ({coqty(t[1])})'
         if t[0] in ('FN', 'RF'):
             if len(t[1]) != 2: raise Untranslatable(f'a reference among {len(t[1])} candidates {t[1]!r} (only two are modelled, as a bool)')
             return 'bool'
@@ -245,13 +334,19 @@ MUTATORS = {('AffineTransformation', n) for n in
             ('apply', 'apply_backwards', 'translate', 'scale', 'reflect', 'rotate', 'invert')} | \
            {('Point', 'rotate'), ('Point', 'transform')} | {('BoundingBox', 'extend')} | \
            {(c, 'round') for c in ('Line', 'QuadraticBezier', 'CubicBezier')} | {('SegmentRepresentation', 'appendSegment')} | \
-           {('BezierPath', 'splitAtPoints')}
+           {('BezierPath', 'splitAtPoints')} | {('BoundingBox', 'addMargin')}
 # mutators whose receiver may be a BoundingBox with unset corners.  `BoundingBox()` sets bl = tr = None; the receiver is an
 # `option (bbox T)`, None standing for "both corners None".  A state with exactly one corner set has no representation: a body
 # that ends in (or joins on) such a state is Untranslatable.
 OPT_SELF = {('BoundingBox', 'extend')}
 # 'A' in a signature: the definition is specialised on the (translation-time) class of that argument, one of these
 ARG_CLASSES = {('BoundingBox', 'extend'): ('P', 'BB')}
+for _c in ('QuadraticBezier', 'CubicBezier'):      # round 4: the other curve, with its `_range`
+    ARG_CLASSES[(_c, '_curve_curve_intersections_t')] = (('RNG', 'seg3'), ('RNG', 'seg4'))
+    ARG_CLASSES[(_c, '_curve_curve_intersections')] = ('seg3', 'seg4')
+for _c in ('Line', 'QuadraticBezier', 'CubicBezier'):
+    ARG_CLASSES[(_c, 'intersections')] = ('seg2', 'seg3', 'seg4')
+ARG_CLASSES[('mod:utils/curvedistance.py', 'curveDistance')] = ('seg2', 'seg3', 'seg4')
 UNSET_BOX = {'bl': None, 'tr': None}
 # methods that return None and update one of their ARGUMENTS in place: translated as functions returning the new value of it
 MUTATED_PARAM = {('CurveFit', 'estimateBi'): 'bez', ('mod:utils/linesweep.py', 'dequefilter'): 'deck'}
@@ -289,6 +384,13 @@ SIG = {
     ('SegmentRepresentation', 'fromNodelist'): ['PCLOSED', ('L', 'NODE')],
     # path/__init__.py: the split list pairs a segment (a dict key, looked up by value) with a time
     ('BezierPath', 'splitAtPoints'): [('L', ('T', ('SEG', 'S')))],
+    # round 4 -- utils/intersectionsmixin.py: specialised on the class of the other segment; `precision` is a translation-time float
+    ('*seg', '_curve_curve_intersections_t'): ['A', 'KF'], ('*seg', '_curve_curve_intersections'): ['A'],
+    ('*seg', 'intersections'): ['A', 'B'],
+    # round 4 -- utils/curvedistance.py: the two parameter intervals are pairs
+    ('MinimumCurveDistanceFinder', 'minDist'): [('T', ('S', 'S')), ('T', ('S', 'S')), 'S'],
+    # round 4 -- path/__init__.py
+    ('BezierPath', 'windingNumberOfPoint'): ['P'], ('BezierPath', 'pointIsInside'): ['P'],
 }
 # effect table: what a function can do besides returning a value.  'fuel': it contains a data-dependent `while` loop (or calls
 # such a function): the definition takes `fuel : nat` first -- the number of iterations every loop invocation may use -- and
@@ -308,15 +410,27 @@ EFFECTS = {
     ('mod:utils/linesweep.py', 'dequefilter'): {'exc'}, ('mod:utils/linesweep.py', 'bbox_intersections'): {'exc'},
     # the `while len(tList) > 0` loop (ZeroDivisionError of mapx is not modelled: `/` is the total dvd, as everywhere in Gen)
     ('BezierPath', 'splitAtPoints'): {'fuel'}, ('BezierPath', 'addExtremes'): {'fuel'},
+    # round 4 -- the recursion of the curve-curve subdivision; AssertionError of `assert lo < hi`, a box with unset corners used as a box
+    ('*seg', '_curve_curve_intersections_t'): {'fuel', 'exc'}, ('*seg', '_curve_curve_intersections'): {'fuel', 'exc'},
+    # round 4 -- the four-way recursion of minDist; a failing D (outside its table), None / int when a loop range is empty
+    ('MinimumCurveDistanceFinder', 'minDist'): {'fuel', 'exc'}, ('mod:utils/curvedistance.py', 'curveDistance'): {'fuel', 'exc'},
+    # round 4 -- a BoundingBox whose corners are still None used as a box (an empty path: addMargin adds a Point to None)
+    ('BezierPath', 'bounds'): {'exc'}, ('BezierPath', 'windingNumberOfPoint'): {'exc'}, ('BezierPath', 'pointIsInside'): {'exc'},
 }
 # 'EDGE': a Line together with its `_orig` attribute, `(seg2 T * option (segment T))`: Some c when `line._orig = c` has been
 # executed on it, None for a Line that was never tagged (reading the attribute would be an AttributeError; nothing reads it).
 # A local variable becomes an EDGE by the statement pair `x = Line(..); x._orig = <segment>` (the object is fresh and unshared).
 # Receivers whose own `_orig` is part of the result come in as EDGE:
-SELF_TY = {('Line', 'flatten'): 'EDGE'}
+SELF_TY = {('Line', 'flatten'): 'EDGE',
+           # round 4: the receiver's `_range` is read
+           ('QuadraticBezier', '_curve_curve_intersections_t'): ('RNG', 'seg3'), ('CubicBezier', '_curve_curve_intersections_t'): ('RNG', 'seg4')}
 
 
-def effects_of(cls, name):
+def effects_of(cls, name, consts=()):
+    if name == 'intersections' and cls in ('Line', 'QuadraticBezier', 'CubicBezier'):
+        # round 4: the dispatch reaches the curve-curve recursion iff both operands are curves
+        curved = cls != 'Line' and len(consts) == 1 and consts[0][0] == 'ty' and consts[0][1] in ('seg3', 'seg4')
+        return frozenset({'fuel', 'exc'}) if curved else frozenset()
     if (cls, name) in EFFECTS: return frozenset(EFFECTS[(cls, name)])
     if cls in ('Line', 'QuadraticBezier', 'CubicBezier'): return frozenset(EFFECTS.get(('*seg', name), ()))
     return frozenset()
@@ -502,6 +616,10 @@ class Translator:
         self.loops = {}       # name of an emitted loop Fixpoint -> its text
         self.fn_cands = ()    # the local functions / local deques of the function being translated, when they are used as run-time
         self.cell_cands = ()  # values (prepare_closures): the candidates a ('FN', ..) / ('RF', ..) value ranges over
+        self.rec_info = {}    # round 4: key of a self-recursive function being translated -> (coqname, declared result type, file)
+        self.rec_used = set()
+        self.extras = {}      # coqname -> the formats ("%.2f") whose abstract parameters (fmt_2f, keq) the definition takes after O
+        self.ixs_mode = False # round 4: inside an IXS_ROOTS function: Intersection objects keep their seg1 ('IXS')
 
     # ------------------------------------------------------------------ helpers
     def fresh(self, base):
@@ -531,8 +649,23 @@ class Translator:
             return '[' + '; '.join(self.text(i) for i in v.items) + ']'
         if v.ty == 'TUP':
             return '(' + ', '.join(self.text(i) for i in v.items) + ')'
+        if isinstance(v.ty, tuple) and v.ty[0] == 'OBJ' and v.tx is None:
+            # round 4: an object whose attributes are known one by one: the tuple of its state
+            fs = [self.typed_text(v.const['fields'][fa], fty) for fa, fty in OBJECTS[v.ty[1]]['state']]
+            return '(' + ', '.join(fs) + ')' if len(fs) > 1 else fs[0]
         if v.tx is None: raise Untranslatable(f'no text for {v!r}')
         return v.tx
+
+    def typed_text(self, v, t):
+        """round 4: text of v as a value of the declared type t of an attribute (an int literal as Z, a plain value as Some of it)"""
+        if t == 'Z' and v.ty == 'I': return f'({v.const})%Z'
+        if t == 'S' and v.ty in ('I', 'Z', 'LEN'): return self.S(v)
+        if isinstance(t, tuple) and t[0] == 'O':
+            if v.ty == 'K' and v.const is None: return 'None'
+            if tmatch(self.rtype(v), t) is not None: return self.text(v)
+            return f'(Some {self.typed_text(v, t[1])})'
+        if tmatch(self.rtype(v), t) is None: raise Untranslatable(f'a value of type {self.rtype(v)!r} where {t!r} is expected')
+        return self.text(v)
 
     def rtype(self, v):
         """runtime (Coq) type of a value"""
@@ -636,40 +769,54 @@ class Translator:
     def function(self, cls, name, consts=()):
         """translate method `name` for receiver class `cls` (or module function when cls startswith 'mod:')"""
         key = (cls, name, consts)
+        if self.ixs_mode and name in IXS_FUNCTIONS: key = (cls, name, consts, 'ixs')
         if key in self.done: return self.done[key]
-        if key in self.inprogress: raise Untranslatable(f'recursion through {key}')
+        if key in self.inprogress:
+            if key in self.rec_info:        # a declared self-recursive function calling itself (callfun checks who is calling)
+                self.rec_used.add(key)
+                return self.rec_info[key]
+            raise Untranslatable(f'recursion through {key}')
         self.inprogress.add(key)
         saved_cands = (self.fn_cands, self.cell_cands)
+        saved_ixs = self.ixs_mode
+        if (cls, name) in IXS_ROOTS: self.ixs_mode = True
         try:
             return self.function_(cls, name, consts, key)
         finally:
             # (also when the translation fails: a caller may catch the failure and translate the call site another way)
+            self.ixs_mode = saved_ixs
             self.fn_cands, self.cell_cands = saved_cands
             self.inprogress.discard(key)
+            self.rec_info.pop(key, None)
 
     def function_(self, cls, name, consts, key):
         if cls.startswith('mod:'):
             path = cls[4:]
             fd = find_modfun(path, name); defcls = None
             modkey = modkey_of(path)
-            file = FILE_OF[modkey]
+            file = FILE_OF_METHOD.get(name, FILE_OF[modkey])
             cname = f'{modkey}_{name}'
             argtys = MODSIG[(path, name)]
             selfty = None
         else:
             path, fd, defcls = find_def(cls, name)
-            file = FILE_OF_METHOD.get(name, FILE_OF_DEFCLASS.get(defcls, FILE_OF[cls]))
+            file = FILE_OF_CLASS_METHOD.get((cls, name), FILE_OF_METHOD.get(name, FILE_OF_DEFCLASS.get(defcls, FILE_OF[cls])))
             cname = f'{PFX[cls]}_{name}'
             argtys = sig_of(cls, name, len(fd.args.args) - 1)
             selfty = SELF_TY.get((cls, name), TY_OF_CLASS.get(cls, 'CLS'))
             if (cls, name) in OPT_SELF: selfty = ('O', selfty)
+            if cls in OBJECTS: selfty = obj_type(cls, [a[2] for a in OBJECTS[cls]['abstract']])     # round 4: inside, the abstract parts are the definition's parameters
         self.fingerprints[f'{path}:{defcls or ""}.{name}'] = fingerprint(fd)
         params = [a.arg for a in fd.args.args]
         is_cm = (cls, name) in CLASSMETHODS
         if is_cm != ('classmethod' in decorators(fd)): raise Untranslatable(f'{cls}.{name}: classmethod table and @classmethod decorator disagree')
         env = {}
         coqparams = []
-        eff = effects_of(cls, name)
+        eff = effects_of(cls, name, consts)
+        rec = RECURSIVE.get((cls, name))
+        if rec is not None and 'fuel' not in eff: raise Untranslatable(f'{cls}.{name}: a recursive function must be declared to use fuel (EFFECTS)')
+        if selfty is not None and cls in OBJECTS:
+            coqparams += [f'({a[2]} : {abs_coqty(a)})' for a in OBJECTS[cls]['abstract']]
         if 'fuel' in eff: coqparams.append('(fuel : nat)')
         if selfty is not None:
             if is_cm:
@@ -690,18 +837,43 @@ class Translator:
             elif ty == 'A':
                 aty = consts[ci][1]; ci += 1
                 if aty not in ARG_CLASSES[(cls, name)]: raise Untranslatable(f'{cls}.{name}: no specialisation for argument class {aty!r}')
-                env[pn] = Val(aty, 'v_' + pn); suffix += '_' + PFX[CLASS_OF[aty]]
+                env[pn] = Val(aty, 'v_' + pn); suffix += '_' + PFX[CLASS_OF[aty[1] if isinstance(aty, tuple) else aty]]
                 coqparams.append(f'(v_{pn} : {coqty(aty)})')
+            elif ty == 'KF':
+                # round 4: a float fixed at translation time: ('pyfloat', value, Coq text); the default value is not named
+                kf = consts[ci]; ci += 1
+                if not (isinstance(kf, tuple) and len(kf) == 3 and kf[0] == 'pyfloat'): raise Untranslatable(f'{cls}.{name}: parameter {pn} must be a translation-time float')
+                env[pn] = Val('S', kf[2], const=('pyfloat', kf[1]))
+                dflt = dict(zip([a.arg for a in fd.args.args][len(fd.args.args) - len(fd.args.defaults):], fd.args.defaults)).get(pn)
+                if not (isinstance(dflt, ast.Constant) and type(dflt.value) is float and dflt.value == kf[1]):
+                    suffix += '_' + kf[1].hex().replace('.', 'd').replace('-', 'm').replace('+', 'p')
             else:
                 env[pn] = Val(ty, 'v_' + pn)
                 coqparams.append(f'(v_{pn} : {coqty(ty)})')
         cname += suffix
+        ixs = len(key) == 4 and key[3] == 'ixs'
+        if ixs:
+            if eff: raise Untranslatable(f'{cls}.{name}: no variant with Intersection.seg1 for a function with effects')
+            cname += '_ixs'; file = 'Winding'
         fd, cells, lfuns = prepare_closures(fd, path)
         self.fn_cands, self.cell_cands = tuple(lfuns), tuple(cells)
         fx = FunTx(self, path, cls if selfty else None, fd)
         fx.effects, fx.cname, fx.file = eff, cname, file
         fx.cells = tuple(cells)
         fx.closure_params = getattr(fd, '_closure_params', set())
+        fx.join_effects = (cls, name) in JOIN_EFFECTS
+        fx.ixs = ixs
+        stateful = (cls, name) in STATEFUL
+        if stateful and (rec is None or selfty is None or cls not in OBJECTS): raise Untranslatable(f'{cls}.{name}: a state-changing method must be a declared recursive method of an OBJECTS class')
+        if rec is not None:
+            # round 4: the body is the `S fuel_` arm of a Fixpoint on fuel; recursive calls (and nothing else) run on fuel_
+            rec = dict(rec)
+            rec['value'] = rec['ret']
+            if stateful: rec['ret'] = ('T', (rec['ret'], selfty))          # (value, new state of the receiver)
+            self.rec_info[key] = (cname, mtype(eff, rec['ret']), file)
+            self.extras[cname] = list(rec['formats'])
+            fx.fuel_names = ['fuel_']
+            fx.recursive = True
         mut = (cls, name) in MUTATORS
         if eff and (((cls, name) in MUTATED_PARAM and eff != {'exc'}) or (cls, name) in OPT_SELF): raise Untranslatable(f'{cls}.{name}: a mutator with effects')
         if (cls, name) in MUTATED_PARAM:
@@ -718,6 +890,11 @@ class Translator:
         elif mut:
             cont = lambda e: e[params[0]]
             ret = lambda v, e: e[params[0]] if (v.ty == 'K' and v.const is None) else fx.fail('mutator returns a value')
+        elif eff and rec is not None:
+            cont = lambda e: Val('K', const=None)
+            def ret(v, e):      # every result as the declared type
+                val = Val(rec['value'], fx.as_type(v, rec['value'], fd))
+                return fx.mreturn(Val('TUP', items=[val, e[params[0]]]) if stateful else val)
         elif eff:
             cont = lambda e: Val('K', const=None)
             ret = lambda v, e: fx.mreturn(v)
@@ -754,13 +931,43 @@ class Translator:
             for e_ in eff:
                 if e_ not in fx.occurred: raise Untranslatable(f'{cls}.{name}: declared effect {e_!r} never occurs')
         src = f'(* {path}: {defcls + "." if defcls else ""}{name}, line {fd.lineno} *)\n'
-        self.out[file].append(src + f'Definition {cname} {{T : Type}} (O : Ops T) {" ".join(coqparams)} : {coqty(rty)} :=\n  {text}.\n')
+        # round 4: the abstract parameters (string formats and the equality of their results) come right after O
+        fmts = sorted(fx.formats)
+        if rec is not None:
+            if fmts != sorted(rec['formats']): raise Untranslatable(f'{cls}.{name}: uses the formats {fmts!r}, declared {sorted(rec["formats"])!r} (RECURSIVE)')
+            if key not in self.rec_used: raise Untranslatable(f'{cls}.{name}: declared recursive (RECURSIVE) but never calls itself')
+            if tmatch(rty, mtype(eff, rec['ret'])) is None: raise Untranslatable(f'{cls}.{name}: result {rty!r}, declared {mtype(eff, rec["ret"])!r} (RECURSIVE)')
+            fmts = list(rec['formats']); rty = mtype(eff, rec['ret'])
+        if fmts:
+            self.extras[cname] = fmts
+            coqparams.insert(0, '{K : Type} ' + ' '.join(f'({fmt_param(f)} : T -> K)' for f in fmts) + ' (keq : K -> K -> bool)')
+        if rec is not None:
+            self.out[file].append(src + f'Fixpoint {cname} {{T : Type}} (O : Ops T) {" ".join(coqparams)} {{struct fuel}} : {coqty(rty)} :=\n'
+                                        f'  match fuel with\n  | Datatypes.O => None\n  | S fuel_ =>\n  {text}\n  end.\n')
+        else:
+            self.out[file].append(src + f'Definition {cname} {{T : Type}} (O : Ops T) {" ".join(coqparams)} : {coqty(rty)} :=\n  {text}.\n')
         self.done[key] = (cname, rty, file)
         return self.done[key]
 
 
 RET = {('Line', 'findExtremes'): ('L', 'S')}
+# round 4: results whose element type the inference leaves open (`inter = []` filled by a fold: the definition's header says
+# `list (_)`), as their callers may read them; Coq checks the claim when the caller is compiled
+RET_REFINE = {('QuadraticBezier', '_curve_line_intersections'): ('L', 'IX'), ('CubicBezier', '_curve_line_intersections'): ('L', 'IX')}
+# round 4: immutable library values computed at translation time, Val('K', const=('py', obj)): the constructors, methods without
+# arguments and int attributes that may be applied to them (Decimal(str(precision)).as_tuple().exponent)
+RANGE_Z_FILES = {'MinDist'}     # round 4: the generated files whose prelude has range_Z
+PY_PURE_METHODS = {('Decimal', 'as_tuple')}
+PY_PURE_ATTRS = {('DecimalTuple', 'exponent')}
 PYEXC = {'ValueError': 'PyValueError', 'IndexError': 'PyIndexError'}
+
+
+def fmt_param(fmt):
+    """round 4: the name of the abstract parameter that stands for `fmt % x`; only "%.<digits>f" """
+    import re
+    m = re.fullmatch(r'%\.(\d+)f', fmt)
+    if not m: raise Untranslatable(f'string format {fmt!r} (only "%.<d>f" of one float is modelled, as an abstract parameter)')
+    return f'fmt_{m.group(1)}f'
 INT_FUNS = {('utils/curvedistance.py', 'C')}
 INLINE_FUNS = {('utils/curvedistance.py', 'A_r'), ('utils/curvedistance.py', 'C_rk'), ('utils/curvedistance.py', 'basis_function')}
 ALIASES = {('utils/curvedistance.py', 'B_k'): 'A_r'}
@@ -820,6 +1027,8 @@ MODSIG = {
     # utils/linesweep.py: the deques hold (shape, bounds) pairs; `condition` is only called
     ('utils/linesweep.py', 'dequefilter'): [('DQ', ('T', ('SHAPE', 'BB'))), ('FUN', (('T', ('SHAPE', 'BB')),), 'B')],
     ('utils/linesweep.py', 'bbox_intersections'): [('L', 'SHAPE'), ('L', 'SHAPE')],
+    # round 4: specialised on the classes of the two segments
+    ('utils/curvedistance.py', 'curveDistance'): ['A', 'A'],
 }
 
 
@@ -850,6 +1059,11 @@ class FunTx:
         self.trial = 0               # > 0: translating a loop body only to infer the types of its carried variables
         self.cells = ()              # local deques with reference semantics (prepare_closures)
         self.closure_params = set()  # the (renamed) parameters of the local functions expanded in place
+        self.formats = set()         # round 4: the string formats ("%.2f") used, here or in a callee: abstract parameters of the definition
+        self.join_effects = False    # round 4: JOIN_EFFECTS
+        self.recursive = False       # round 4: RECURSIVE (the body is the `S fuel_` arm of a Fixpoint on fuel)
+        self.in_stateful_call = False
+        self.ixs = False             # round 4: Intersection(..) as an 'IXS' (with seg1)
 
     def fresh(self, base):
         self.counter += 1
@@ -868,7 +1082,7 @@ class FunTx:
         except Exception:
             q = Fraction(repr(v))
         if float(q) != v: self.fail(f'literal {seg} does not evaluate to its float', node)
-        return Val('S', f'(lit O ({q.numerator}) ({q.denominator}) ({v.hex()})%float)')
+        return Val('S', f'(lit O ({q.numerator}) ({q.denominator}) ({v.hex()})%float)', const=('pyfloat', v))
 
     def global_const(self, name, node):
         paths = [self.path]
@@ -937,7 +1151,16 @@ class FunTx:
                 e2, pat = self.items_view(X, k, env)
                 r = self.conj(self.purely(lambda: [self.truth(self.expr(v, e2), n) for v in n.values[1:]]), 'andb')
                 return Val('B', f'(match {env[X].tx} with {pat} => {self.tr.text(r)} | _ => false end)')
-            vs = [self.truth(self.expr(n.values[0], env), n)] + self.purely(lambda: [self.truth(self.expr(v, env), n) for v in n.values[1:]])
+            nr = self.narrow_boolop(n, env)
+            if nr is not None: return nr
+            first = self.truth(self.expr(n.values[0], env), n)
+            saved = (self.counter, tr.counter, len(self.pending))
+            try:
+                vs = [first] + self.purely(lambda: [self.truth(self.expr(v, env), n) for v in n.values[1:]])
+            except Untranslatable as e1_:
+                if isinstance(e1_, EffectInJoin) or not ('exc' in self.effects and self.pure_depth == 0 and isinstance(n.op, ast.And) and first.ty == 'B'): raise
+                self.counter, tr.counter = saved[0], saved[1]; del self.pending[saved[2]:]
+                return self.raising_and(first, n, env, e1_)
             return self.conj(vs, 'andb' if isinstance(n.op, ast.And) else 'orb')
         if isinstance(n, ast.IfExp):
             c = self.truth(self.expr(n.test, env), n)
@@ -963,7 +1186,67 @@ class FunTx:
             return Val('FL', items=[self.expr(e, env) for e in n.elts])
         if isinstance(n, ast.ListComp):
             return self.listcomp(n, env)
+        if isinstance(n, ast.JoinedStr):
+            # round 4: an f-string all of whose fields are translation-time ints (no conversion, no format spec): a constant string
+            parts = []
+            for x in n.values:
+                if isinstance(x, ast.Constant) and isinstance(x.value, str): parts.append(x.value); continue
+                if isinstance(x, ast.FormattedValue) and x.conversion == -1 and x.format_spec is None:
+                    v = self.expr(x.value, env)
+                    if v.ty == 'I': parts.append(str(v.const)); continue
+                self.fail('f-string field that is not a translation-time int', n)
+            return Val('K', const=''.join(parts))
         self.fail(f'expression {type(n).__name__}', n)
+
+    def narrow_boolop(self, n, env):
+        """round 4: `X and <rest>` / `not X or <rest>`, X a variable or an attribute of the receiver holding an Optional value: <rest>
+        is evaluated only when X is not None, and sees its value:
+            match X with None => false | Some z => <z is truthy> && <rest> end      (resp.  None => true | Some z => <z is falsy> || <rest>)"""
+        tr = self.tr
+        isand = isinstance(n.op, ast.And)
+        e0 = n.values[0]
+        if not isand:
+            if not (isinstance(e0, ast.UnaryOp) and isinstance(e0.op, ast.Not)): return None
+            e0 = e0.operand
+        if isinstance(e0, ast.Name) and e0.id in env: holder = None
+        elif isinstance(e0, ast.Attribute) and isinstance(e0.value, ast.Name) and e0.value.id in env and isinstance(env[e0.value.id].ty, tuple) \
+                and env[e0.value.id].ty[0] == 'OBJ' and e0.attr in dict(OBJECTS[env[e0.value.id].ty[1]]['state']): holder = e0.value.id
+        else: return None
+        v = self.expr(e0, env)
+        if not (isinstance(v.ty, tuple) and v.ty[0] == 'O' and v.tx is not None and (v.ty[1] in ('S', 'Z') or (v.ty[1] == '?' and self.trial > 0))): return None
+        z = self.fresh('z')
+        inner = Val(v.ty[1], z)
+        e2 = dict(env)
+        if holder is None: e2[e0.id] = inner
+        else:
+            fields = self.obj_fields(env[holder]); fields[e0.attr] = inner
+            e2[holder] = Val(env[holder].ty, const={'fields': fields})
+        c0 = self.truth(inner, n, negate=not isand)
+        rest = self.conj(self.purely(lambda: [self.truth(self.expr(x, e2), n) for x in n.values[1:]]), 'andb' if isand else 'orb')
+        both = self.conj([c0, rest], 'andb' if isand else 'orb')
+        return Val('B', f'(match {v.tx} with None => {"false" if isand else "true"} | Some {z} => {tr.text(both)} end)')
+
+    def raising_and(self, first, n, env, why):
+        """round 4: `a and b and ..` where a later operand may raise (never consume fuel): Python evaluates it only when the operands
+        before it are true.  The conjunction is computed as an `outcome bool`,
+            if a then <b's operations, ending in Returns b, or Raises e> else Returns false
+        and bound around the statement being translated like the result of a call that may raise."""
+        def go(c, rest):
+            if not rest: return f'(Returns {c.tx})'
+            mark = len(self.pending)
+            try:
+                nxt = self.truth(self.expr(rest[0], env), n)
+            except Untranslatable as e2_:
+                raise Untranslatable(f'{e2_} [as a pure conjunction: {why}]')
+            ents = self.pending[mark:]
+            del self.pending[mark:]
+            if nxt.ty != 'B': self.fail('a translation-time operand after one that may raise', n)
+            inner = self.in_ctx('comp', lambda: self.wrap(ents, go(nxt, rest[1:]), 'comp', n))
+            return f'(if {c.tx} then\n  {inner}\n  else (Returns false))'
+        text = go(first, n.values[1:])
+        r = self.fresh('r')
+        self.push_effect({'effects': {'exc'}, 'what': 'conjunction whose later operands may raise', 'kind': 'call', 'text': text, 'pat': r}, n)
+        return Val('B', r)
 
     def ref_or_value(self, e, env):
         """an element of a tuple / an operand of `is`: the name of a cell (a local deque with reference semantics) denotes the
@@ -980,6 +1263,36 @@ class FunTx:
         for p_, t in zip(ps, argtys): e2[p_] = Val(t, 'v_' + p_)
         body = self.purely(lambda: self.in_ctx('pure', lambda: self.expr(node.body, e2)))
         return body, '(fun ' + ' '.join(f'(v_{p_} : {coqty(t)})' for p_, t in zip(ps, argtys)) + f' => {self.tr.text(body) if body.ty != "I" else self.tr.S(body)})'
+
+    def extremum_by(self, name, lst, key, n):
+        """round 4: min(l, key=lambda x: <float>) / max over a list literal of run-time items: CPython keeps the first item and replaces
+        it by a later one whose key compares strictly smaller (greater); the items become tuples of one common type"""
+        tr = self.tr
+        _, node, lenv = key.const
+        ps = [a.arg for a in node.args.args]
+        if len(ps) != 1: self.fail('key function arity', n)
+        def keyof(v):
+            e2 = dict(lenv); e2[ps[0]] = v
+            k = self.purely(lambda: self.in_ctx('pure', lambda: self.expr(node.body, e2)))
+            if k.ty not in ('S', 'I'): self.fail(f'key of type {k.ty!r}', n)
+            return tr.S(k)
+        ty = None
+        for it in lst.items:
+            t = tr.rtype(it)
+            if isinstance(t, tuple) and t[0] == 'L' and it.ty == 'FL': t = ('T', tuple(tr.rtype(x) for x in it.items))      # a list literal of fixed length, only indexed
+            ty = t if ty is None else tmatch(ty, t)
+            if ty is None: self.fail('items of different types', n)
+        if not (isinstance(ty, tuple) and ty[0] == 'T'): self.fail(f'{name}(key=) over items of type {ty!r}', n)
+        acc = Val(ty, self.as_type(lst.items[0], ty, n))
+        lets = []
+        for it in lst.items[1:]:
+            nm = self.fresh('m')
+            b = Val(ty, self.as_type(it, ty, n))
+            kb, ka = keyof(it), keyof(acc if tr.atomic(acc) else lst.items[0])
+            c = f'(ltb O {kb} {ka})' if name == 'min' else f'(ltb O {ka} {kb})'
+            lets.append(f'let {nm} := (if {c} then {b.tx} else {acc.tx}) in ')
+            acc = Val(ty, nm)
+        return Val(ty, '(' + ''.join(lets) + acc.tx + ')')
 
     def names_class(self, name):
         """is `name`, at the top level of the module being translated, the class of MODULE_OF_CLASS (defined there, or imported from its module)?"""
@@ -1012,6 +1325,11 @@ class FunTx:
             return Val('K', const=(not v.const) if negate else bool(v.const))
         if v.ty == 'B':
             return Val('B', f'(negb {v.tx})') if negate else v
+        if v.ty == '?' and self.trial > 0: return Val('B', '_')      # round 4: while the types of a loop's accumulators are being inferred
+        if v.ty == 'S':       # round 4: a float is falsy iff it is 0.0 / -0.0 (a NaN is truthy)
+            return Val('B', f'(eqb O {v.tx} (ofZ O 0))') if negate else Val('B', f'(neqb O {v.tx} (ofZ O 0))')
+        if v.ty == 'Z':
+            return Val('B', f'({v.tx} =? 0)%Z') if negate else Val('B', f'(negb ({v.tx} =? 0)%Z)')
         if isinstance(v.ty, tuple) and v.ty[0] == 'L':
             return Val('B', f'(isnil {v.tx})') if negate else Val('B', f'(negb (isnil {v.tx}))')
         if v.ty == 'FL':
@@ -1041,6 +1359,17 @@ class FunTx:
     def binop(self, op, a, b, n):
         tr = self.tr
         num = lambda v: v.ty in ('S', 'I', 'LEN', 'Z')
+        if 'exc' in self.effects and op in ('Add', 'Sub', 'Mult', 'Div'):
+            # round 4: None as an operand of arithmetic is a TypeError
+            if isinstance(a.ty, tuple) and a.ty[0] == 'O' and a.ty[1] in ('S', 'Z') and a.tx is not None: a = self.unnone(a, n)
+            if isinstance(b.ty, tuple) and b.ty[0] == 'O' and b.ty[1] in ('S', 'Z') and b.tx is not None: b = self.unnone(b, n)
+        if op == 'Mod' and a.ty == 'K' and isinstance(a.const, str):
+            # round 4: "%.<d>f" % x, x a float: the string is a value of the abstract type K, computed by the parameter fmt_<d>f
+            if b.ty != 'S': self.fail(f'string formatting of {b.ty!r} (only one float)', n)
+            try: f = fmt_param(a.const)
+            except Untranslatable as e: self.fail(str(e), n)
+            self.formats.add(a.const)
+            return Val('STR', f'({f} {b.tx})')
         if a.ty == 'I' and b.ty == 'I':
             x, y = a.const, b.const
             if op == 'Add': return Val('I', const=x + y)
@@ -1053,6 +1382,8 @@ class FunTx:
             self.fail(f'int op {op}', n)
         if 'Z' in (a.ty, b.ty) and a.ty in ('Z', 'I') and b.ty in ('Z', 'I') and op in ('Add', 'Sub', 'Mult'):
             return Val('Z', f'({self.Zt(a)} {dict(Add="+", Sub="-", Mult="*")[op]} {self.Zt(b)})%Z')
+        if a.ty == 'Z' and b.ty == 'I' and op == 'Mod' and b.const > 0:
+            return Val('Z', f'({a.tx} mod {self.Zt(b)})%Z')       # round 4: Python's % by a positive int is Z.modulo
         if num(a) and num(b):
             f = {'Add': 'add', 'Sub': 'sub', 'Mult': 'mul', 'Div': 'dvd'}.get(op)
             if f: return Val('S', f'({f} O {tr.S(a)} {tr.S(b)})')
@@ -1070,10 +1401,28 @@ class FunTx:
 
     def keyeq(self, kt, n=None):
         if kt not in KEYEQ: self.fail(f'a dict keyed by {kt!r} (no key equality declared)', n)
+        if kt == 'P': self.dict_key_P(n)
         return KEYEQ[kt]
+
+    def dict_key_P(self, n):
+        """round 4: a dict keyed by Point VALUES.  CPython finds a stored key iff the hashes are equal and (the objects are identical or
+        stored.__eq__(new)).  The model: the keys handed to the dict are always fresh objects (never identical to a stored one);
+        Point.__hash__ must be `hash(self.x) << 32 ^ hash(self.y)` -- hashes of floats are equal iff the floats are (0.0 and -0.0
+        alike; a NaN hashes by identity, so it equals nothing), and the combination of the two coordinate hashes is ASSUMED injective
+        on the pairs that occur (as Hand/Winding.v does) -- so two keys collide iff their coordinates are equal floats and
+        Point.__eq__ holds: point_keyeq of the prelude of Gen/Winding.v."""
+        try: path, fd, defcls = find_def('Point', '__hash__')
+        except KeyError: self.fail('Point has no __hash__', n)
+        want = ast.dump(ast.parse('hash(self.x) << 32 ^ hash(self.y)', mode='eval').body)
+        body = [b for b in fd.body if not (isinstance(b, ast.Expr) and isinstance(b.value, ast.Constant))]
+        if not (len(body) == 1 and isinstance(body[0], ast.Return) and ast.dump(body[0].value) == want and [a.arg for a in fd.args.args] == ['self']):
+            self.fail('Point.__hash__ is not the one the model of dict lookup was written for', n)
+        self.tr.fingerprints[f'{path}:{defcls}.__hash__'] = fingerprint(fd)
+        self.tr.function('Point', '__eq__')
 
     def compare(self, op, a, b, n):
         tr = self.tr
+        if self.trial > 0 and '?' in (a.ty, b.ty) and op in ('Lt', 'LtE', 'Gt', 'GtE', 'Eq', 'NotEq'): return Val('B', '_')      # round 4 (see truth)
         if op in ('In', 'NotIn'):
             if not (isinstance(b.ty, tuple) and b.ty[0] == 'DICT' and b.tx is not None): self.fail(f'membership in {b.ty!r}', n)
             kt = tmatch(b.ty[1], tr.rtype(a))
@@ -1144,6 +1493,10 @@ class FunTx:
         """coerce two branch results to a common runtime type; returns (texta, textb, type)"""
         tr = self.tr
         if {a.ty, b.ty} == {'I', 'Z'}: return (self.Zt(a), self.Zt(b), 'Z')
+        if a.ty == 'TUP' and isinstance(b.ty, tuple) and b.ty[0] == 'T' and len(b.ty[1]) == len(a.items) and b.tx is not None and self.tr.atomic(b):
+            b = Val('TUP', items=self.tuple_items(b))       # round 4
+        if b.ty == 'TUP' and isinstance(a.ty, tuple) and a.ty[0] == 'T' and len(a.ty[1]) == len(b.items) and a.tx is not None and self.tr.atomic(a):
+            a = Val('TUP', items=self.tuple_items(a))
         if a.ty == 'TUP' and b.ty == 'TUP' and len(a.items) == len(b.items):
             us = [self.unify(x, y, n) for x, y in zip(a.items, b.items)]
             return ('(' + ', '.join(u[0] for u in us) + ')', '(' + ', '.join(u[1] for u in us) + ')', ('T', tuple(u[2] for u in us)))
@@ -1171,6 +1524,9 @@ class FunTx:
         for x, y in ((ta, tb), (tb, ta)):
             if isinstance(x, tuple) and x[0] == 'O' and x[1] == y:
                 return (tr.text(a) if ta == x else f'(Some ({tr.text(a)}))', tr.text(b) if tb == x else f'(Some ({tr.text(b)}))', x)
+        for x, y in ((ta, tb), (tb, ta)):
+            if isinstance(x, tuple) and x[0] == 'O' and x[1] == '?' and not (isinstance(y, tuple) and y[0] == 'O') and y != '?':      # round 4
+                return (tr.text(a) if ta == x else f'(Some ({tr.text(a)}))', tr.text(b) if tb == x else f'(Some ({tr.text(b)}))', ('O', y))
         if a.ty == 'FL' and not a.items and isinstance(tb, tuple) and tb[0] == 'L': return ('[]', tr.text(b), tb)
         if b.ty == 'FL' and not b.items and isinstance(ta, tuple) and ta[0] == 'L': return (tr.text(a), '[]', ta)
         self.fail(f'branches of different types {ta!r} / {tb!r}', n)
@@ -1192,6 +1548,38 @@ class FunTx:
         if isinstance(n.value, ast.Name) and n.value.id == 'pyclipper': self.fail('pyclipper', n)
         v = self.expr(n.value, env)
         a = n.attr
+        if isinstance(v.ty, tuple) and v.ty[0] == 'RNG':
+            # round 4: a curve with its `_range`; everything else is the segment's (a method that reads the range gets the whole value back)
+            if a == '_range': return Val('FL', items=[Val('S', f'(rg_lo {v.tx})'), Val('S', f'(rg_hi {v.tx})')])
+            if (CLASS_OF[v.ty[1]], a) in SELF_TY and SELF_TY[(CLASS_OF[v.ty[1]], a)] == v.ty:
+                return Val('K', const=('bound', CLASS_OF[v.ty[1]], a, v))
+            v = Val(v.ty[1], f'(rg_seg {v.tx})')
+        if isinstance(v.ty, tuple) and v.ty[0] == 'OBJ':
+            # round 4: a mutable attribute (the current state), an abstracted part (a parameter), or a method
+            spec = OBJECTS[v.ty[1]]
+            for i, (fa, fty) in enumerate(spec['state']):
+                if fa == a: return self.obj_fields(v)[fa]
+            for ab, tx in zip(spec['abstract'], v.ty[2]):
+                if ab[0] == 'len' and ab[1] == a: return Val('LENOF', tx)
+                if ab[0] == 'method' and ab[1] == a: return Val('K', const=('absmethod', ab, tx))
+            try: find_def(v.ty[1], a)
+            except KeyError: self.fail(f'attribute .{a} of a {v.ty[1]} is not modelled', n)
+            return Val('K', const=('bound', v.ty[1], a, v))
+        if v.ty in SEGN and a == '_range':
+            # round 4: of a segment as its constructor made it
+            lo, hi = self.whole_range(v.ty, n)
+            return Val('FL', items=[lo, hi])
+        if v.ty == ('O', 'BB') and 'exc' in self.effects:
+            # round 4: a BoundingBox whose corners may still be None, used as a box: None is an AttributeError / TypeError inside
+            v = self.unbox(v, n)
+        if v.ty == 'K' and isinstance(v.const, tuple) and v.const[0] == 'py':
+            # round 4: a translation-time Python value (see PY_PURE)
+            obj = v.const[1]
+            if (type(obj).__name__, a) in PY_PURE_METHODS: return Val('K', const=('pymethod', obj, a))
+            if (type(obj).__name__, a) in PY_PURE_ATTRS:
+                r = getattr(obj, a)
+                if type(r) is int: return Val('I', const=r)
+            self.fail(f'attribute .{a} of a translation-time {type(obj).__name__}', n)
         if v.ty == 'P':
             if a in ('x', 'y'): return Val('S', f'(p{a} {v.tx})')
             return self.property_or_method(v, a, n)
@@ -1233,6 +1621,13 @@ class FunTx:
             if len(kinds) != 1 or not all(self.has_attr(CLASS_OF[t], a) for _, t in SEGSUM): self.fail(f'attribute .{a} is not the same kind of thing in the three classes of segment', n)
             if kinds == {True}: return self.seg_dispatch(v, lambda c, sv: self.callfun(c, a, [sv], n), n)
             return Val('K', const=('bounddyn', a, v))
+        if v.ty == 'IXS':
+            if a == 'seg1': return Val('SEG', f'(fst {v.tx})')
+            if a == 't1': return Val('S', f'(fst (fst (snd {v.tx})))')
+            if a == 'point': return Val('P', f'(snd (fst (snd {v.tx})))')
+            if a == 't2': return Val('S', f'(snd (snd {v.tx}))')
+        if isinstance(v.ty, tuple) and v.ty[0] == 'DICT' and a == 'values' and v.tx is not None:
+            return Val('K', const=('dictvalues', v))
         if v.ty == 'IX':
             if a == 't1': return Val('S', f'(fst (fst {v.tx}))')
             if a == 'point': return Val('P', f'(snd (fst {v.tx}))')
@@ -1244,6 +1639,58 @@ class FunTx:
             if a == 'bez2': return v.items[1]
             if a in ('D', 'S'): return Val('K', const=('cdfmethod', a, v))
         self.fail(f'attribute .{a} of {v.ty!r}', n)
+
+    def obj_fields(self, v):
+        """round 4: the mutable attributes of an ('OBJ', ..) value: as assigned so far, or projections of its run-time state"""
+        if v.tx is None: return dict(v.const['fields'])
+        st = OBJECTS[v.ty[1]]['state']
+        out = {}
+        for i, (fa, fty) in enumerate(st):
+            t = v.tx
+            if len(st) > 1:
+                for _ in range(len(st) - 1 - i): t = f'(fst {t})'
+                if i > 0: t = f'(snd {t})'
+            out[fa] = Val(fty, t)
+        return out
+
+    def unnone(self, v, n):
+        """round 4: an Optional value where Python needs the value itself (an operand of arithmetic): None is a TypeError"""
+        x = self.fresh('z')
+        self.push_effect({'effects': {'exc'}, 'what': 'arithmetic on a value that may be None', 'kind': 'unbox', 'text': v.tx, 'pat': x}, n)
+        return Val(v.ty[1], x)
+
+    def unbox(self, v, n):
+        """round 4: an `option (bbox T)` (None = both corners unset) where Python goes on to use the corners: Raises PyNoneError on None"""
+        x = self.fresh('b')
+        self.push_effect({'effects': {'exc'}, 'what': 'use of a BoundingBox whose corners may be unset', 'kind': 'unbox', 'text': v.tx, 'pat': x}, n)
+        return Val('BB', x)
+
+    def whole_range(self, ty, n):
+        """round 4: the `_range` of a curve as its constructor made it: read off `self._range = [<int>, <int>]` in the class's own
+        __init__.  Nothing else in the library may assign the attribute, except range_assign's statement on fresh objects."""
+        cls = CLASS_OF[ty]
+        try: path, fd, defcls = find_def(cls, '__init__')
+        except KeyError: self.fail(f'{cls} has no __init__', n)
+        found = None
+        for st in ast.walk(fd):
+            if isinstance(st, ast.Assign) and len(st.targets) == 1 and isinstance(st.targets[0], ast.Attribute) and st.targets[0].attr == '_range':
+                v = st.value
+                if found is not None or not (isinstance(st.targets[0].value, ast.Name) and st.targets[0].value.id == fd.args.args[0].arg and st in fd.body
+                        and isinstance(v, ast.List) and len(v.elts) == 2 and all(isinstance(e, ast.Constant) and type(e.value) is int for e in v.elts)):
+                    self.fail(f'{cls}.__init__ sets _range in a way that is not modelled', n)
+                found = [Val('I', const=e.value) for e in v.elts]
+        if found is None: self.fail(f'{cls}.__init__ does not set _range', n)
+        self.tr.fingerprints[f'{path}:{defcls}.__init__'] = fingerprint(fd)
+        # every other store to the attribute, anywhere in the modelled classes, must be the statement range_assign translates
+        for k, mp in MODULE_OF_CLASS.items():
+            for x in ast.walk(module(mp)[1]):
+                if isinstance(x, ast.FunctionDef):
+                    for y in ast.walk(x):
+                        stores = isinstance(y, ast.Attribute) and y.attr == '_range' and isinstance(y.ctx, (ast.Store, ast.Del))
+                        inplace = isinstance(y, ast.Subscript) and isinstance(y.ctx, (ast.Store, ast.Del)) and isinstance(y.value, ast.Attribute) and y.value.attr == '_range'
+                        if (stores and x.name not in ('__init__', '_curve_curve_intersections_t')) or inplace:
+                            self.fail(f'{mp}:{y.lineno}: _range is updated in {x.name}', n)
+        return found
 
     def has_attr(self, cls, a):
         try: find_def(cls, a); return True
@@ -1345,6 +1792,9 @@ class FunTx:
         if not isinstance(g.target, ast.Name): self.fail('comprehension target', n)
         it = self.expr(g.iter, env)
         x = g.target.id
+        if isinstance(it.ty, tuple) and it.ty[0] == 'IT':
+            if not isinstance(g.iter, ast.Call): self.fail('an iterator that is not consumed where it is produced', n)
+            it = Val(('L', it.ty[1]), it.tx)
         if it.ty == 'FL':
             out = []
             dynamic = False
@@ -1394,16 +1844,26 @@ class FunTx:
             self.fail(f'cannot find {cls}.{name}', n)
         if (cls, name) in SELF_TY and (not args or args[0].ty != SELF_TY[(cls, name)]):
             self.fail(f'{cls}.{name} takes its receiver as a {SELF_TY[(cls, name)]!r}', n)
+        if (cls, name) in RET_REFINE:
+            want = RET_REFINE[(cls, name)] if not cname.endswith('_ixs') else ('L', 'IXS')
+            if tmatch(rty, want) is not None: rty = tmatch(rty, want)
         argt = ' '.join(self.argtext(a) for a in args)
+        if (cls, name, consts) in self.tr.inprogress and cname != self.cname:
+            self.fail(f'{self.cname} and {cname} are mutually recursive', n)
+        # round 4: the abstract parameters of the callee are passed on (and become parameters of this definition)
+        xs = self.tr.extras.get(cname, [])
+        self.formats.update(xs)
+        extra = ''.join(fmt_param(f) + ' ' for f in xs) + ('keq ' if xs else '')
+        if args and isinstance(args[0].ty, tuple) and args[0].ty[0] == 'OBJ': extra += ''.join(t + ' ' for t in args[0].ty[2])      # round 4
         m = is_mtype(rty)
         if m is not None:
             # the callee consumes fuel and/or may raise: its result is bound around the statement being translated
             eff, inner = m
             fuel = self.budget() + ' ' if 'fuel' in eff else ''
             r = self.fresh('r')
-            self.push_effect({'effects': set(eff), 'what': f'call of {cname}', 'kind': 'call', 'text': f'({cname} O {fuel}{argt})'.replace(' )', ')'), 'pat': r}, n)
+            self.push_effect({'effects': set(eff), 'what': f'call of {cname}', 'kind': 'call', 'text': f'({cname} O {extra}{fuel}{argt})'.replace(' )', ')'), 'pat': r}, n)
             return Val(inner, r)
-        return Val(rty, f'({cname} O {argt})'.replace(' )', ')'))
+        return Val(rty, f'({cname} O {extra}{argt})'.replace(' )', ')'))
 
     # ------------------------------------------------------------------ effects
     def purely(self, thunk):
@@ -1467,6 +1927,8 @@ class FunTx:
                 t = f'match py_index O {ent["text"]} with\n  | None => {self.raise_text("PyIndexError")}\n  | Some {ent["pat"]} =>\n  {t}\n  end'
             elif ent['kind'] == 'indexZ':
                 t = f'match py_index_Z {ent["text"]} with\n  | None => {self.raise_text("PyIndexError")}\n  | Some {ent["pat"]} =>\n  {t}\n  end'
+            elif ent['kind'] == 'unbox':
+                t = f'match {ent["text"]} with\n  | None => {self.raise_text("PyNoneError", ctx)}\n  | Some {ent["pat"]} =>\n  {t}\n  end'
             elif ent['kind'] == 'popleft':
                 t = f'match {ent["text"]} with\n  | [] => {self.raise_text("PyIndexError")}\n  | {ent["pat"]} =>\n  {t}\n  end'
             elif ent['kind'] == 'head':
@@ -1513,8 +1975,15 @@ class FunTx:
                 if v.ty != 'K': self.fail(f'argument of {cls}.{name} must be constant', n)
                 consts.append(v.const)
             elif ty == 'A':
-                if not (isinstance(v.ty, str) and v.ty in ARG_CLASSES[(cls, name)]): self.fail(f'argument class {v.ty!r} of {cls}.{name}', n)
+                if v.ty in SEGN and ('RNG', v.ty) in ARG_CLASSES[(cls, name)]: v = self.as_ranged(v, n)
+                if not (isinstance(v.ty, (str, tuple)) and v.ty in ARG_CLASSES[(cls, name)]): self.fail(f'argument class {v.ty!r} of {cls}.{name}', n)
                 consts.append(('ty', v.ty)); out.append(v)
+            elif ty == 'KF':
+                if not (v.ty == 'S' and isinstance(v.const, tuple) and v.const[0] == 'pyfloat' and v.tx is not None):
+                    self.fail(f'argument of {cls}.{name} must be a float known at translation time', n)
+                consts.append(('pyfloat', v.const[1], v.tx))
+            elif ty == 'BB' and v.ty == ('O', 'BB') and 'exc' in self.effects:
+                out.append(self.unbox(v, n))
             elif ty == 'S':
                 out.append(Val('S', self.tr.S(v)))
             elif ty == 'B':
@@ -1547,18 +2016,27 @@ class FunTx:
             if name == 'abs':
                 a = args[0]
                 if a.ty == 'I': return Val('I', const=abs(a.const))
+                if a.ty == 'Z': return Val('Z', f'(Z.abs {a.tx})')       # round 4: a run-time int
                 return Val('S', f'(abs_ O {tr.S(a)})')
             if name in ('min', 'max') and len(args) >= 2 and not kwargs:
                 # builtin max/min over positional arguments: keep the first, replace when a later one compares strictly better
                 if all(a.ty == 'I' for a in args): return Val('I', const=(min if name == 'min' else max)(a.const for a in args))
+                if all(a.ty in ('I', 'Z') for a in args):       # round 4: run-time ints (equal ints are the same value: which one is kept does not matter)
+                    acc = self.Zt(args[0])
+                    for b in args[1:]: acc = f'(Z.{name} {acc} {self.Zt(b)})'
+                    return Val('Z', acc)
                 acc = tr.S(args[0])
                 for b in args[1:]: acc = f'({name}2 O {acc} {tr.S(b)})'
                 return Val('S', acc)
+            if name in ('min', 'max') and len(args) == 1 and set(kwargs) == {'key'} and args[0].ty == 'FL' and args[0].items \
+                    and kwargs['key'].ty == 'K' and isinstance(kwargs['key'].const, tuple) and kwargs['key'].const[0] == 'lambda':
+                return self.extremum_by(name, args[0], kwargs['key'], n)
             if name == 'len':
                 a = args[0]
                 if a.ty in SEGN: return Val('I', const=SEGN[a.ty])
                 if a.ty in ('FL', 'TUP'): return Val('I', const=len(a.items))
                 if isinstance(a.ty, tuple) and a.ty[0] == 'L': return Val('LEN', tx=a.tx)
+                if a.ty == 'LENOF': return Val('Z', a.tx)      # round 4: len() of an abstracted attribute: a parameter
                 if a.ty == 'SEG':       # Segment.__len__ is len(self.points): 2, 3 or 4 by the class
                     self.tr.fingerprints['segment.py:Segment.__len__'] = fingerprint(find_def('Line', '__len__')[1])
                     return Val('SEGLEN', tx=a.tx)
@@ -1568,9 +2046,23 @@ class FunTx:
                 if isinstance(a.ty, tuple) and a.ty[0] == 'L' and a.ty[1] != '?' and a.tx is not None:
                     return Val(('L', ('T', ('Z', a.ty[1]))), f'(enumerate_Z {a.tx})')
                 self.fail(f'enumerate of {a.ty!r}', n)
+            if name == 'str' and len(args) == 1 and not kwargs and args[0].ty == 'S' and isinstance(args[0].const, tuple) and args[0].const[0] == 'pyfloat':
+                return Val('K', const=str(args[0].const[1]))        # round 4: str() of a translation-time float
+            if name == 'Decimal' and imports_name(self.path, 'Decimal', 'decimal') and len(args) == 1 and not kwargs \
+                    and args[0].ty == 'K' and isinstance(args[0].const, str):
+                import decimal
+                try: return Val('K', const=('py', decimal.Decimal(args[0].const)))     # round 4: exact, context-independent
+                except decimal.InvalidOperation: self.fail(f'Decimal({args[0].const!r})', n)
             if name == 'float':
                 a = args[0]
                 return Val('S', tr.S(a))
+            if name == 'int' and len(n.args) == 1 and isinstance(n.args[0], ast.Call) and isinstance(n.args[0].func, ast.Attribute) and n.args[0].func.attr == 'copysign' \
+                    and isinstance(n.args[0].func.value, ast.Name) and n.args[0].func.value.id == 'math' and 'math' not in env and len(n.args[0].args) == 2 \
+                    and isinstance(n.args[0].args[0], ast.Constant) and type(n.args[0].args[0].value) is int and n.args[0].args[0].value >= 1:
+                # round 4: int(math.copysign(k, x)), k a positive int literal: copysign gives k or -k exactly, so the int is k or -k
+                kk = n.args[0].args[0].value
+                x = tr.S(self.expr(n.args[0].args[1], env))
+                return Val('Z', f'(if ltb O (copysign_ O (ofZ O ({kk})) {x}) (ofZ O 0) then ({-kk})%Z else ({kk})%Z)')
             if name == 'int':
                 a = args[0]
                 if a.ty == 'I': return a
@@ -1610,6 +2102,10 @@ class FunTx:
             if name == 'range':
                 if all(a.ty == 'I' for a in args):
                     return Val('FL', items=[Val('I', const=i) for i in range(*[a.const for a in args])])
+                if not kwargs and len(args) in (1, 2) and all(a.ty in ('I', 'Z') for a in args) and self.file in RANGE_Z_FILES:
+                    # round 4: range() of run-time ints, the list of them (range_Z of the prelude of Gen/MinDist.v)
+                    lo, hi = ('0%Z', self.Zt(args[0])) if len(args) == 1 else (self.Zt(args[0]), self.Zt(args[1]))
+                    return Val(('L', 'Z'), f'(range_Z {lo} {hi})')
                 self.fail('dynamic range', n)
             if name == 'zip':
                 if all(a.ty == 'FL' for a in args):
@@ -1621,6 +2117,8 @@ class FunTx:
             if name in RECORD_OF_CLASS:
                 if not self.names_class(name): self.fail(f'{name} is not the class of {MODULE_OF_CLASS[name]} here', n)
                 return self.construct(name, args, n, kwargs)
+            if name in OBJECTS and (self.names_class(name)):
+                return self.construct_object(name, args, kwargs, n)
             if name in TY_OF_CLASS or name == 'klass' or name == 'Intersection':
                 return self.construct(name, args, n)
             if (self.path, name) in INT_FUNS or (self.path, ALIASES.get((self.path, name))) in INT_FUNS:
@@ -1675,11 +2173,35 @@ class FunTx:
                 vals = self.bindargs(fd, args, kwargs, n, skip_self=True)
                 vals, consts = self.coerce_args(cls, a, vals, n)
                 return self.callfun(cls, a, vals, n, consts)
+            if kind == 'dictvalues':
+                # round 4: d.values(): the values in the order of first insertion of their keys (only iterated, where it stands)
+                d = fv.const[1]
+                if args or kwargs or d.ty[2] == '?': self.fail('values() of a dict of unknown type / with arguments', n)
+                return Val(('IT', d.ty[2]), f'(map snd {d.tx})')
+            if kind == 'absmethod':
+                # round 4: a method of the object that is a parameter of the definition
+                _, ab, ftx = fv.const
+                if kwargs or len(args) != len(ab[3]): self.fail(f'call of .{ab[1]}: arity', n)
+                tx = '(' + ' '.join([ftx] + [self.as_type(a, t, n) for a, t in zip(args, ab[3])]) + ')'
+                if isinstance(ab[4], tuple) and ab[4][0] == 'X':
+                    r = self.fresh('r')
+                    self.push_effect({'effects': {'exc'}, 'what': f'call of .{ab[1]} (it may fail)', 'kind': 'call', 'text': tx, 'pat': r}, n)
+                    return Val(ab[4][1], r)
+                return Val(ab[4], tx)
+            if kind == 'pymethod':
+                _, obj, a = fv.const
+                if args or kwargs: self.fail(f'{type(obj).__name__}.{a} with arguments', n)
+                return Val('K', const=('py', getattr(obj, a)()))
             if kind == 'bound':
                 _, cls, a, recv = fv.const
+                if (cls, a) in STATEFUL and not self.in_stateful_call:
+                    self.fail(f'{cls}.{a} changes its receiver: a call is only translated as the right-hand side of an assignment, on a local variable', n)
                 path, fd, defcls = find_def(cls, a)
                 vals = self.bindargs(fd, args, kwargs, n, skip_self=True)
                 vals, consts = self.coerce_args(cls, a, vals, n)
+                want = SELF_TY.get((cls, a))
+                if isinstance(want, tuple) and want[0] == 'RNG' and recv.ty == want[1]:
+                    recv = self.as_ranged(recv, n)       # round 4: a curve as its constructor made it
                 return self.callfun(cls, a, [recv] + vals, n, consts)
             if kind == 'localfun':
                 return self.inline(self.localfuns[fv.const[1]], args, kwargs, n)
@@ -1742,6 +2264,11 @@ class FunTx:
         if tr.rtype(v) != t: self.fail(f'argument type {tr.rtype(v)!r} where {t!r} expected in {what}', n)
         return v
 
+    def as_ranged(self, v, n):
+        """round 4: a curve whose `_range` is the one its __init__ sets"""
+        lo, hi = self.whole_range(v.ty, n)
+        return Val(('RNG', v.ty), f'(Ranged {v.tx} {self.tr.S(lo)} {self.tr.S(hi)})')
+
     def construct(self, name, args, n, kwargs=None):
         tr = self.tr
         if name == 'klass':
@@ -1775,8 +2302,51 @@ class FunTx:
         if name == 'Intersection':
             seg1, t1, seg2, t2 = flat
             pnt = self.callfun(CLASS_OF[seg1.ty], 'pointAtTime', [seg1, Val('S', tr.S(t1))], n)
+            if self.ixs: return Val('IXS', f'({self.as_type(seg1, "SEG", n)}, ({tr.S(t1)}, {pnt.tx}, {tr.S(t2)}))')      # round 4: with seg1
             return Val('IX', f'({tr.S(t1)}, {pnt.tx}, {tr.S(t2)})')
         self.fail(f'constructor {name}', n)
+
+    def construct_object(self, name, args, kwargs, n):
+        """round 4: an instance of an OBJECTS class: its __init__ must be a list of `self.<a> = <e>`; the mutable attributes give the
+        initial state, the abstracted parts are built from what the constructor stores (for the finder: the two segments give
+        len(), S and the table of D of their pair of classes, Gen/CurveDist.v), the ignored attributes must be set to {}"""
+        tr = self.tr
+        spec = OBJECTS[name]
+        path, fd, defcls = find_def(name, '__init__')
+        tr.fingerprints[f'{path}:{defcls}.__init__'] = fingerprint(fd)
+        if fd.args.vararg or fd.args.kwarg or fd.args.kwonlyargs: self.fail(f'{name}.__init__ signature', n)
+        vals = self.bindargs(fd, args, kwargs, n, skip_self=True, defpath=path)
+        params = [a.arg for a in fd.args.args]
+        env = dict(zip(params[1:], vals))
+        sub = FunTx(tr, path, name, fd)
+        attrs = {}
+        for st in fd.body:
+            if isinstance(st, ast.Expr) and isinstance(st.value, ast.Constant): continue
+            if not (isinstance(st, ast.Assign) and len(st.targets) == 1 and isinstance(st.targets[0], ast.Attribute) and isinstance(st.targets[0].value, ast.Name)
+                    and st.targets[0].value.id == params[0] and st.targets[0].attr not in attrs):
+                self.fail(f'{name}.__init__ is not a list of assignments to distinct attributes', n)
+            attrs[st.targets[0].attr] = sub.purely(lambda: sub.in_ctx('pure', lambda: sub.expr(st.value, env)))
+        for a in spec['ignored']:
+            v = attrs.pop(a, None)
+            if not (v is not None and isinstance(v.ty, tuple) and v.ty[0] == 'DICT' and v.tx == '[]'): self.fail(f'{name}.__init__ does not set .{a} to an empty dict', n)
+        fields = {}
+        for fa, fty in spec['state']:
+            if fa not in attrs: self.fail(f'{name}.__init__ leaves .{fa} unset', n)
+            fields[fa] = attrs.pop(fa)
+            tr.typed_text(fields[fa], fty)       # (checks the type)
+        segs = {a: attrs.pop(a, None) for a in sorted({ab[1] for ab in spec['abstract'] if ab[0] == 'len'})}
+        if attrs: self.fail(f'{name}.__init__ sets attributes that are not modelled: {sorted(attrs)}', n)
+        if name != 'MinimumCurveDistanceFinder' or any(v is None or v.ty not in SEGN for v in segs.values()): self.fail(f'{name}(..) of {[v.ty if v else None for v in segs.values()]!r}', n)
+        b1, b2 = segs['bez1'], segs['bez2']
+        n1, n2 = SEGN[b1.ty], SEGN[b2.ty]
+        sname = tr.cdf_S(n1, n2)[0]; dname = tr.cdf_D(n1, n2)[0]
+        abs_texts = []
+        for ab in spec['abstract']:
+            if ab[0] == 'len': abs_texts.append(f'({SEGN[segs[ab[1]].ty]})%Z')
+            elif ab[1] == 'S': abs_texts.append(f'({sname} O {b1.tx} {b2.tx})')
+            elif ab[1] == 'D': abs_texts.append(f'(table_get ({dname} O {b1.tx} {b2.tx}))')
+            else: self.fail(f'no instance for the abstracted part {ab[1]}', n)
+        return Val(obj_type(name, abs_texts), const={'fields': fields})
 
     def construct_record(self, name, args, kwargs, n):
         """an instance of a class modelled as a record: the class's __init__ is run on an object with no attribute set"""
@@ -1811,13 +2381,34 @@ class FunTx:
         tr = self.tr
         if t == 'Z' and v.ty in ('I', 'Z'): return self.Zt(v)
         if t == 'S' and v.ty in ('I', 'S', 'LEN', 'Z'): return tr.S(v)
-        if v.ty == 'FL' and not v.items and isinstance(t, tuple) and t[0] == 'L': return '[]'
+        if v.ty == 'FL' and not v.items and isinstance(t, tuple) and t[0] in ('L', 'IT'): return '[]'
         if t == 'SEG' and v.ty in SEGN: return f'({[c for c, k in SEGSUM if k == v.ty][0]} {v.tx})'
-        if v.ty == 'FL' and isinstance(t, tuple) and t[0] == 'L':
+        if v.ty == 'FL' and isinstance(t, tuple) and t[0] in ('L', 'IT'):
             return '[' + '; '.join(self.as_type(i, t[1], n) for i in v.items) + ']'
+        if v.ty in ('FL', 'TUP') and isinstance(t, tuple) and t[0] == 'T' and len(v.items) == len(t[1]):
+            # round 4: a Python list / tuple of known length where the declared type is a tuple (nothing may change its length: only indexing is translated)
+            return '(' + ', '.join(self.as_type(i, ti, n) for i, ti in zip(v.items, t[1])) + ')'
+        if isinstance(t, tuple) and t[0] == 'IT' and isinstance(v.ty, tuple) and v.ty[0] == 'L' and tmatch(v.ty[1], t[1]) is not None: return tr.text(v)
+        if isinstance(t, tuple) and t[0] == 'O' and not (v.ty == 'K' and v.const is None) and tmatch(tr.rtype(v), t) is None:
+            return f'(Some {self.as_type(v, t[1], n)})'        # round 4: a plain value where an Optional one is expected
+        if isinstance(t, tuple) and t[0] == 'O' and v.ty == 'K' and v.const is None: return 'None'
+        if isinstance(t, tuple) and t[0] == 'T' and isinstance(v.ty, tuple) and v.ty[0] == 'T' and len(t[1]) == len(v.ty[1]) and v.tx is not None and tmatch(v.ty, t) is None:
+            # round 4: a run-time tuple whose components have to be coerced one by one
+            return '(' + ', '.join(self.as_type(p_, ti, n) for p_, ti in zip(self.tuple_items(v), t[1])) + ')'
         vt = tr.rtype(v)
         if tmatch(vt, t) is None: self.fail(f'a value of type {vt!r} where {t!r} is expected', n)
         return tr.text(v)
+
+    def tuple_items(self, v):
+        """the components of a run-time tuple as projections"""
+        nn = len(v.ty[1])
+        out = []
+        for k in range(nn):
+            t = v.tx
+            for _ in range(nn - 1 - k): t = f'(fst {t})'
+            if k > 0: t = f'(snd {t})'
+            out.append(Val(v.ty[1][k], t))
+        return out
 
     def inline(self, fd, args, kwargs, n):
         vals = self.bindargs(fd, args, kwargs, n, skip_self=False)
@@ -1911,7 +2502,7 @@ class FunTx:
         """emit `let name := v in <k env'>` unless v is translation-time structure or atomic"""
         tr = self.tr
         e2 = dict(env)
-        if v.ty in ('I', 'K', 'FL', 'TUP', 'LEN', 'UBB') or tr.atomic(v):
+        if v.ty in ('I', 'K', 'FL', 'TUP', 'LEN', 'UBB') or tr.atomic(v) or (isinstance(v.ty, tuple) and v.ty[0] == 'OBJ' and v.tx is None):
             if v.ty in ('FL', 'TUP'):
                 # bind non-atomic components so later uses do not duplicate them
                 lets, items = [], []
@@ -1922,6 +2513,7 @@ class FunTx:
                     else: items.append(it)
                 e2[name] = Val(v.ty, items=items)
                 r = k(e2)
+                if not lets and r.ty == 'TUP' and self.join_effects: return r      # (round 4: nothing was bound: the result keeps its structure; the earlier rounds' text must not change)
                 t = tr.text(r)
                 for nm, tx in reversed(lets): t = f'let {nm} := {tx} in\n  {t}'
                 return self.retext(r, t)
@@ -1966,6 +2558,13 @@ class FunTx:
             # only an assertion that is true at translation time (isinstance of a value whose class is known)
             c = self.purely(lambda: self.truth(self.expr(s.test, env), s))
             if c.ty == 'K' and c.const is True: return k(env)
+            if c.ty == 'B' and 'exc' in self.effects and s.msg is None and self.ctx_stack[-1] in ('fun', 'foldx') and self.pure_depth == 0:
+                # round 4: a run-time assertion (the interpreter is assumed not to run with -O): AssertionError when it fails
+                self.occurred.add('exc')
+                r = k(env)
+                if r.ty == 'K' and r.const is None: self.fail('assert on a path that returns None', s)
+                if is_mtype(tr.rtype(r)) is None: raise EffectInJoin(f'{self.path}:{s.lineno} ({self.fd.name}): assert where the continuation is not a function result')
+                return self.retext(r, f'(if {c.tx} then\n  {tr.text(r)}\n  else {self.raise_text("PyAssertionError")})')
             self.fail('assert that is not a translation-time truth', s)
         if isinstance(s, ast.FunctionDef):
             self.localfuns[s.name] = s
@@ -1975,6 +2574,25 @@ class FunTx:
             if len(s.targets) != 1: self.fail('multiple targets', s)
             t = s.targets[0]
             sv = s.value
+            if isinstance(t, ast.Attribute) and t.attr == '_range': return self.range_assign(s, env, k)
+            if isinstance(sv, ast.Call) and isinstance(sv.func, ast.Attribute) and isinstance(sv.func.value, ast.Name) and sv.func.value.id in env \
+                    and isinstance(env[sv.func.value.id].ty, tuple) and env[sv.func.value.id].ty[0] == 'OBJ' and (env[sv.func.value.id].ty[1], sv.func.attr) in STATEFUL:
+                # round 4: x = obj.m(..), m a method that updates obj: the call yields (value, new state); obj is rebound to the new state
+                X = sv.func.value.id
+                if any(isinstance(y, ast.Name) and y.id == X for a_ in list(sv.args) + [kw.value for kw in sv.keywords] for y in ast.walk(a_)):
+                    self.fail(f'{X} is also an argument of the call that updates it', s)
+                self.in_stateful_call = True
+                try: res = self.expr(sv, env)
+                finally: self.in_stateful_call = False
+                ent = self.pending[-1] if self.pending else None
+                if ent is None or ent.get('pat') != res.tx or not (isinstance(res.ty, tuple) and res.ty[0] == 'T' and len(res.ty[1]) == 2 and isinstance(res.ty[1][1], tuple) and res.ty[1][1][:2] == env[X].ty[:2]):
+                    self.fail('a state-changing call that is not the last effect of its statement', s)
+                r1, st = self.fresh('r'), self.fresh('v_' + X)
+                ent['pat'] = f'({r1}, {st})'
+                e2 = dict(env); e2[X] = Val(env[X].ty, st)
+                return self.assign(t, Val(res.ty[1][0], r1), e2, k, s)
+            fi = self.filter_idiom(s, rest, env)
+            if fi is not None: return self.filter_fold(s, fi, env, lambda e: self.block(rest, e, cont, ret))
             if isinstance(t, ast.Name) and isinstance(sv, ast.Call) and isinstance(sv.func, ast.Attribute) and sv.func.attr == 'pop' \
                     and isinstance(sv.func.value, ast.Name) and sv.func.value.id in env and not sv.keywords and len(sv.args) == 1 \
                     and isinstance(sv.args[0], ast.Constant) and type(sv.args[0].value) is int and sv.args[0].value == 0 and t.id != sv.func.value.id:
@@ -2109,6 +2727,22 @@ class FunTx:
                 return k(e2)
             if recv.ty in RECORDS:
                 return self.bind(t.value.id, self.with_field(recv, t.attr, v, s), env, k)
+            if isinstance(recv.ty, tuple) and recv.ty[0] == 'OBJ':
+                # round 4: self.a = v on an object with mutable attributes: the same object with the attribute replaced
+                st = dict(OBJECTS[recv.ty[1]]['state'])
+                if t.attr not in st: self.fail(f'{recv.ty[1]} has no mutable attribute .{t.attr} in the model', s)
+                tr.typed_text(v, st[t.attr])        # (checks the type)
+                fields = self.obj_fields(recv)
+                e2 = dict(env)
+                if v.ty in ('I', 'K') or tr.atomic(v):
+                    fields[t.attr] = v
+                    e2[t.value.id] = Val(recv.ty, const={'fields': fields})
+                    return k(e2)
+                nm = self.fresh(f'v_{t.value.id}_{t.attr}')
+                fields[t.attr] = Val(v.ty, nm)
+                e2[t.value.id] = Val(recv.ty, const={'fields': fields})
+                r = k(e2)
+                return self.retext(r, f'let {nm} := {v.tx} in\n  {tr.text(r)}')
             if recv.ty == 'UBB' and t.attr in UNSET_BOX and v.ty == 'P':
                 fields = dict(recv.const)
                 if all(fields[c] is not None for c in UNSET_BOX if c != t.attr):
@@ -2155,6 +2789,143 @@ class FunTx:
                 nv = Val('BB', f'(BB {np} (tr {recv.tx}))' if c == 'bl' else f'(BB (bl {recv.tx}) {np})')
                 return self.bind(nm, nv, env, k)
         self.fail('assignment target', s)
+
+    def range_assign(self, s, env, k):
+        """round 4: `x._range = [lo, hi]`, x a local variable holding a curve that splitAtTime has just created: from here on x is the
+        curve with that range, ('RNG', t).  The object must not be reachable from anywhere else (the model has values, Python an
+        object that others could see change): x was bound by `a, b = <e>.splitAtTime(<t>)` at the top level of the function and no
+        statement between that one and this one mentions x."""
+        t = s.targets[0]
+        if not (isinstance(t.value, ast.Name) and t.value.id in env): self.fail('_range set on something that is not a local variable', s)
+        X = t.value.id
+        recv = env[X]
+        if recv.ty not in ('seg3', 'seg4'): self.fail(f'_range set on a {recv.ty!r}', s)
+        body = self.fd.body
+        j = next((i for i, st in enumerate(body) if st is s), None)
+        i = next((i for i, st in enumerate(body) if isinstance(st, ast.Assign) and len(st.targets) == 1 and isinstance(st.targets[0], ast.Tuple)
+                  and any(isinstance(e, ast.Name) and e.id == X for e in st.targets[0].elts)), None)
+        if i is None or j is None or i >= j: self.fail(f'_range set on {X}, which is not the fresh result of a splitAtTime unpacked at the top level of the function', s)
+        b = body[i]
+        if not (isinstance(b.value, ast.Call) and isinstance(b.value.func, ast.Attribute) and b.value.func.attr == 'splitAtTime'
+                and all(isinstance(e, ast.Name) for e in b.targets[0].elts) and len({e.id for e in b.targets[0].elts}) == len(b.targets[0].elts)):
+            self.fail(f'_range set on {X}, which is not the fresh result of a splitAtTime', s)
+        if sum(1 for x in ast.walk(self.fd) if isinstance(x, ast.Name) and x.id == X and isinstance(x.ctx, (ast.Store, ast.Del))) != 1 or X in [a.arg for a in self.fd.args.args]:
+            self.fail(f'{X} is bound more than once', s)
+        for st in body[i + 1:j]:
+            if any(isinstance(x, ast.Name) and x.id == X for x in ast.walk(st)): self.fail(f'{X} is used between its creation and the assignment of its _range', s)
+        v = self.expr(s.value, env)
+        if v.ty != 'FL' or len(v.items) != 2 or any(it.ty not in ('S', 'I') for it in v.items): self.fail('_range set to something that is not a list of two numbers', s)
+        lo, hi = [self.tr.S(it) for it in v.items]
+        return self.bind(X, Val(('RNG', recv.ty), f'(Ranged {recv.tx} {lo} {hi})'), env, k)
+
+    def filter_idiom(self, s, rest, env):
+        """round 4: `Y = filter(F, L)` immediately followed by `return Y`, the last two statements of the function; F a local function
+        of one parameter, L a local list.  Returns (F's FunctionDef, L, the captured variables F updates in place) or None.
+
+        filter() is lazy: F runs when the CALLER consumes the iterator.  Nothing of this function runs after the return, so the
+        result is the list an eager filter produces provided that what F reads and updates cannot be seen or changed by anyone else
+        in between: every captured variable F updates is a local dict bound once, by `D = {}`, and mentioned nowhere outside F; the
+        list L is a local variable bound by `L = []` and otherwise only updated by .append / .extend statements (so it is reachable
+        from nowhere else).  F's body is translated as a pure function (filter_fold): it cannot raise, loop or call anything
+        effectful.  The caller gets an ('IT', t): it can only iterate it once, where it receives it."""
+        t = s.targets[0]
+        v = s.value
+        if not (isinstance(t, ast.Name) and isinstance(v, ast.Call) and isinstance(v.func, ast.Name) and v.func.id == 'filter'): return None
+        if 'filter' in env or 'filter' in self.localfuns: return None
+        if v.keywords or len(v.args) != 2 or not all(isinstance(a, ast.Name) for a in v.args): self.fail('filter(..) of anything but a local function and a local list', s)
+        F, L = v.args[0].id, v.args[1].id
+        if F not in self.localfuns or L not in env: self.fail('filter(..) of anything but a local function and a local list', s)
+        if not (len(rest) == 1 and isinstance(rest[0], ast.Return) and isinstance(rest[0].value, ast.Name) and rest[0].value.id == t.id
+                and len(self.fd.body) >= 2 and self.fd.body[-1] is rest[0] and self.fd.body[-2] is s):
+            self.fail('filter(..) whose lazy result is not returned at once, at the end of the function', s)
+        fd = self.localfuns[F]
+        a = fd.args
+        if a.vararg or a.kwarg or a.kwonlyargs or a.defaults or getattr(a, 'posonlyargs', None) or len(a.args) != 1: self.fail(f'{F}: only one plain parameter', s)
+        for x in ast.walk(fd):
+            if isinstance(x, (ast.Nonlocal, ast.Global, ast.Yield, ast.YieldFrom, ast.Await, ast.Lambda)) or (isinstance(x, ast.FunctionDef) and x is not fd):
+                self.fail(f'{F}: {type(x).__name__} in a filter predicate', x)
+        param = a.args[0].arg
+        own = {y.id for x in fd.body for y in ast.walk(x) if isinstance(y, ast.Name) and isinstance(y.ctx, (ast.Store, ast.Del))} | {param}
+        carried = [nm for nm in self.assigned(fd.body, env) if nm not in own]
+        for nm in carried:
+            if nm not in env: self.fail(f'{F} updates {nm}, which is not a local variable', s)
+            d = env[nm]
+            if not (isinstance(d.ty, tuple) and d.ty[0] == 'DICT'): self.fail(f'{F} updates {nm}, a {d.ty!r} (only a local dict is modelled)', s)
+            inside = {id(y) for y in ast.walk(fd)}
+            occ = [y for y in ast.walk(self.fd) if isinstance(y, ast.Name) and y.id == nm and id(y) not in inside]
+            binds = [st for st in self.fd.body if isinstance(st, ast.Assign) and len(st.targets) == 1 and isinstance(st.targets[0], ast.Name) and st.targets[0].id == nm
+                     and isinstance(st.value, ast.Dict) and not st.value.keys]
+            if len(occ) != 1 or len(binds) != 1 or occ[0] is not binds[0].targets[0] or nm in [p.arg for p in self.fd.args.args]:
+                self.fail(f'the dict {nm} that {F} updates is visible outside {F}', s)
+        if own & set(carried): self.fail(f'{F} rebinds a variable it updates in place', s)
+        # the list: bound by `L = []`, then only .append / .extend statements, the filter call and the rebinding of the result
+        lv = env[L]
+        if not ((isinstance(lv.ty, tuple) and lv.ty[0] == 'L' and lv.tx is not None) or lv.ty == 'FL'): self.fail(f'filter over {L}, a {lv.ty!r}', s)
+        parent = {}
+        for x in ast.walk(self.fd):
+            for c in ast.iter_child_nodes(x): parent[c] = x
+        for y in ast.walk(self.fd):
+            if not (isinstance(y, ast.Name) and y.id == L): continue
+            pa = parent.get(y)
+            ok = (isinstance(pa, ast.Assign) and pa.targets == [y] and ((isinstance(pa.value, ast.List) and not pa.value.elts) or pa is s)) \
+                or (isinstance(pa, ast.Attribute) and pa.attr in ('append', 'extend') and isinstance(parent.get(pa), ast.Call) and parent[pa].func is pa
+                    and isinstance(parent.get(parent[pa]), ast.Expr)) \
+                or (pa is v) or (pa is rest[0] and t.id == L)
+            if not ok: self.fail(f'the list {L} handed to filter(..) may be reachable from elsewhere', y)
+        if L in [p.arg for p in self.fd.args.args]: self.fail(f'filter over the parameter {L}', s)
+        return fd, L, carried
+
+    def filter_fold(self, s, fi, env, k):
+        """round 4: the eager reading of `Y = filter(F, L)` (see filter_idiom)
+
+            let '(D.., Y) := fold_left (fun '(D.., keep) x => let '(D'.., b) := <body of F> in (D'.., if b then keep ++ [x] else keep)) L (D.., []) in ..
+
+        (with no captured state: List.filter).  F's `return e` is the pair (the state there, e); falling off its end returns None: falsy."""
+        tr = self.tr
+        fd, L, carried = fi
+        lv = env[L]
+        if lv.ty == 'FL': lv = Val(tr.rtype(lv), tr.text(lv))
+        if lv.ty[1] == '?': self.fail(f'filter over a list of unknown element type', s)
+        et = lv.ty[1]
+        param = fd.args.args[0].arg
+        x = 'v_' + param
+        inner = {nm: self.fresh('v_' + nm) for nm in carried}
+        e1 = dict(env)
+        e1[param] = Val(et, x)
+        for nm in carried: e1[nm] = Val(env[nm].ty, inner[nm])
+        def out(b, e):
+            bt = self.truth(b, s) if not (b.ty == 'K' and b.const is None) else Val('K', const=False)
+            return Val('TUP', items=[self.need(e, nm, s) for nm in carried] + [bt])
+        saved = self.localfuns
+        self.localfuns = {}
+        try:
+            body = self.purely(lambda: self.in_ctx('pure', lambda: self.with_live(carried, lambda: self.block(fd.body, e1, lambda e: out(Val('K', const=None), e), lambda v, e: out(v, e)))))
+        finally:
+            self.localfuns = saved
+        Y = s.targets[0].id
+        if not carried:
+            bt = tr.text(body.items[0]) if body.ty == 'TUP' else f'(let \'b_ := {tr.text(body)} in b_)'
+            return self.bind(Y, Val(('IT', et), f'(filter (fun {x} => {bt}) {lv.tx})'), env, k)
+        bty = tr.rtype(body)
+        if not (isinstance(bty, tuple) and bty[0] == 'T' and len(bty[1]) == len(carried) + 1 and bty[1][-1] == 'B'): self.fail(f'filter predicate of type {bty!r}', s)
+        stys = list(bty[1][:-1])
+        for nm, t0 in zip(carried, stys):
+            if tmatch(env[nm].ty, t0) is None: self.fail(f'the predicate changes the type of {nm}', s)
+        keep = self.fresh('v_keep')
+        pat = '(' + ', '.join([inner[nm] for nm in carried] + [keep]) + ')'
+        outs = [self.fresh('o_' + nm) for nm in carried]
+        b_ = self.fresh('b')
+        step = (f"let '({', '.join(outs + [b_])}) := {tr.text(body)} in\n  ({', '.join(outs)}, if {b_} then {keep} ++ [{x}] else {keep})")
+        init = '(' + ', '.join([tr.text(env[nm]) for nm in carried] + ['[]']) + ')'
+        sty = coqty(('T', tuple(stys) + (('L', et),)))
+        res = self.fresh('v_' + Y)
+        e2 = dict(env)
+        finals = []
+        for nm, t0 in zip(carried, stys):
+            fn = self.fresh('v_' + nm); e2[nm] = Val(t0, fn); finals.append(fn)
+        e2[Y] = Val(('IT', et), res)
+        r = k(e2)
+        return self.retext(r, f"let '({', '.join(finals + [res])}) := fold_left (fun '({pat} : {sty}) ({x} : {coqty(et)}) =>\n  {step}) {lv.tx} {init} in\n  {tr.text(r)}")
 
     def with_field(self, recv, attr, v, s):
         """the record value recv with attribute attr replaced by v"""
@@ -2235,6 +3006,10 @@ class FunTx:
                     return self.bind(nm, Val(lty, f'({recv.tx} ++ [{tr.text(args[0]) if lty[1] != "S" else tr.S(args[0])}])'), env, k)
                 if f.attr == 'extend':
                     a = args[0]
+                    if isinstance(a.ty, tuple) and a.ty[0] == 'IT':
+                        # round 4: a lazy iterator, consumed here, once, where the call that returns it stands
+                        if not isinstance(c.args[0], ast.Call): self.fail('an iterator that is not consumed where it is produced', s)
+                        a = Val(('L', a.ty[1]), a.tx)
                     if lty == 'FL' and a.ty == 'FL': return self.bind(nm, Val('FL', items=recv.items + a.items), env, k)
                     if lty == 'FL': recv = Val(a.ty, tr.text(Val('FL', items=recv.items)) if recv.items else '[]')
                     return self.bind(nm, Val(recv.ty, f'({recv.tx} ++ {tr.text(a)})'), env, k)
@@ -2246,6 +3021,28 @@ class FunTx:
                     if not (isinstance(recv.const, tuple) and recv.const[0] == 'cons'): self.fail('pop(0) from a list not known to be non-empty', s)
                     e2 = dict(env); e2[nm] = Val(lty, recv.const[2])
                     return k(e2)
+            if ('BoundingBox', f.attr) in OPT_SELF and (recv.ty in ('BB', 'UBB') or recv.ty == ('O', 'BB')) and len(args) == 1 and not kwargs \
+                    and (args[0].ty == 'SEG' or args[0].ty in SEGN) and 'exc' in self.effects:
+                # round 4: box.extend(seg), seg a segment: neither a Point nor a BoundingBox, so the method's last branch runs,
+                # `self.extend(other.bounds())` (checked against the source); other.bounds() with unset corners is None handed to extend
+                path, fd, defcls = find_def('BoundingBox', f.attr)
+                last = fd.body[-1]
+                tests = []
+                while isinstance(last, ast.If) and len(last.orelse) == 1:
+                    tests.append(last); last = last.orelse[0]
+                want = ast.dump(ast.parse(f'{fd.args.args[0].arg}.{f.attr}({fd.args.args[1].arg}.bounds())').body[0])
+                if ast.dump(last) != want or not tests or not all(isinstance(x.test, ast.Call) and isinstance(x.test.func, ast.Name) and x.test.func.id == 'isinstance'
+                                                                  and len(x.test.args) == 2 and isinstance(x.test.args[1], ast.Name) and x.test.args[1].id in ('Point', 'BoundingBox') for x in tests):
+                    self.fail(f'BoundingBox.{f.attr} of a segment: the method is not the chain of isinstance tests ending in {f.attr}(other.bounds())', s)
+                a0 = args[0]
+                if a0.ty == 'SEG': ob = self.seg_dispatch(a0, lambda c_, sv: self.callfun(c_, 'bounds', [sv], s), s)
+                else: ob = self.callfun(CLASS_OF[a0.ty], 'bounds', [a0], s)
+                box = self.unbox(ob, s)
+                nv = self.callfun('BoundingBox', f.attr, [self.as_optbox(recv, s), box], s, (('ty', 'BB'),))
+                return self.bind(nm, nv, env, k)
+            if recv.ty == ('O', 'BB') and ('BoundingBox', f.attr) in MUTATORS and ('BoundingBox', f.attr) not in OPT_SELF and 'exc' in self.effects:
+                # round 4: a mutator that reads the corners, on a box whose corners may still be None
+                recv = self.unbox(recv, s)
             if ('BoundingBox', f.attr) in OPT_SELF and (recv.ty in ('BB', 'UBB') or recv.ty == ('O', 'BB')):
                 cls = 'BoundingBox'
                 path, fd, defcls = find_def(cls, f.attr)
@@ -2548,6 +3345,8 @@ class FunTx:
             # a branch consumes fuel or may raise: it cannot be a value joined by `if`; each branch is continued by the rest instead
             if not self.effects: raise
             self.counter = saved[0]; del self.pending[saved[1]:]
+            if self.join_effects and self.ctx_stack[-1] in ('fun', 'foldx') and self.pure_depth == 0:
+                return self.join_outcomes(c, s, rest, env, cont, ret, names)
             a = self.block(s.body + rest, env, cont, ret)
             b = self.block(s.orelse + rest, env, cont, ret)
             if a.ty == 'K' and a.const is None and b.ty == 'K' and b.const is None: return a
@@ -2568,6 +3367,34 @@ class FunTx:
             pat = "'" + pat
         r = self.block(rest, e2, cont, ret)
         return self.retext(r, f'let {pat} := (if {c.tx} then {x} else {y}) in\n  {tr.text(r)}')
+
+    def join_outcomes(self, c, s, rest, env, cont, ret, names):
+        """round 4 (JOIN_EFFECTS): an `if` whose branches consume fuel / may raise and do not leave the function: each branch ends in
+        the values of the variables it assigns, as a result with the function's effects; the rest is translated once, under the match"""
+        tr = self.tr
+        def branch(stmts):
+            def end(e):
+                vals = [self.need(e, v, s) for v in names]
+                return self.mreturn(vals[0] if len(vals) == 1 else Val('TUP', items=vals))
+            return self.with_live(names, lambda: self.block(stmts, env, end, lambda v, e: self.fail('return in joined branch', s)))
+        a, b = branch(s.body), branch(s.orelse)
+        x, y, ty = self.unify(a, b, s)
+        m = is_mtype(ty)
+        if m is None or m[0] != set(self.effects): self.fail(f'joined branches of type {ty!r}', s)
+        inner = m[1]
+        tys = [inner] if len(names) == 1 else (list(inner[1]) if isinstance(inner, tuple) and inner[0] == 'T' and len(inner[1]) == len(names) else None)
+        if tys is None: self.fail(f'joined branches of type {ty!r}', s)
+        e2 = dict(env)
+        pat = None
+        for nm, t in zip(names, tys):
+            fn = self.fresh('v_' + nm)
+            e2[nm] = Val(t, fn)
+            pat = fn if pat is None else f'({pat}, {fn})'
+        r = self.block(rest, e2, cont, ret)
+        if r.ty == 'K' and r.const is None: self.fail('effectful branches on a path that returns None', s)
+        if is_mtype(tr.rtype(r)) is None: raise EffectInJoin(f'{self.path}:{s.lineno} ({self.fd.name}): effectful branches where the continuation is not a function result')
+        ent = {'effects': set(self.effects), 'what': 'if with effectful branches', 'kind': 'call', 'text': f'(if {c.tx} then\n  {x}\n  else {y})', 'pat': pat}
+        return self.retext(r, self.wrap([ent], tr.text(r), self.ctx_stack[-1], s))
 
     def need(self, env, v, s):
         if v not in env: self.fail(f'variable {v} not defined on every path', s)
@@ -2648,6 +3475,7 @@ class FunTx:
         tr = self.tr
         if self.ctx_stack[-1] not in ('fun', 'loop', 'foldx'): self.fail('while loop inside a fold / inlined function', s)
         if s.orelse: self.fail('while-else', s)
+        if self.recursive: self.fail('while loop in a recursive function (its fuel counts nested calls)', s)
         if self.has_return(s.body): self.fail('return inside a while loop', s)
         for x in ast.walk(s.test):
             if isinstance(x, (ast.NamedExpr, ast.Lambda, ast.ListComp, ast.Await, ast.Yield)): self.fail('while test too complex', s)
@@ -2856,6 +3684,9 @@ class FunTx:
                                         lambda: self.fold_loop(s, rest, env, dict(env), [], '_', itv, cont, ret),
                                         lambda: self.fold_loop_x(s, rest, env, dict(env), [], '_', itv, cont, ret))
         it = self.deref(self.expr(s.iter, env), env, s)
+        if isinstance(it.ty, tuple) and it.ty[0] == 'IT':
+            if not isinstance(s.iter, ast.Call): self.fail('an iterator that is not consumed where it is produced', s)
+            it = Val(('L', it.ty[1]), it.tx)
         if s.orelse: self.fail('for-else', s)
         if isinstance(it.ty, tuple) and it.ty[0] == 'DQ': it = Val(('L', it.ty[1]), it.tx)       # iteration over a deque: left to right
         if isinstance(it.ty, tuple) and it.ty[0] == 'L' and not self.has_return(s.body):
@@ -2882,7 +3713,7 @@ class FunTx:
         """a loop over a dynamic list: as a plain fold when its body cannot raise; else, at statement level of a function declared to
         raise, with fold_outcome"""
         tr = self.tr
-        if not (self.effects and self.ctx_stack[-1] == 'fun' and self.pure_depth == 0): return pure()
+        if not (self.effects and self.ctx_stack[-1] in ('fun', 'foldx') and self.pure_depth == 0): return pure()      # (round 4: also nested in such a loop)
         saved = (self.counter, tr.counter, len(self.pending))
         try:
             return pure()
@@ -2973,8 +3804,27 @@ class FunTx:
             accs = [self.need(env, v, s) for v in names]
             tys = [tr.rtype(a) for a in accs]
             inner = {nm: self.fresh('v_' + nm) for nm in names}
-            for nm, t in zip(names, tys): e1[nm] = Val(t, inner[nm])
-            body = self.in_ctx('pure', lambda: self.with_live(names, lambda: self.block(s.body, e1, lambda e: Val('TUP', items=[self.need(e, v, s) for v in names]), lambda v, e: self.fail('return in fold', s))))
+            def run(tys):
+                for nm, t in zip(names, tys): e1[nm] = Val(t, inner[nm])
+                return self.in_ctx('pure', lambda: self.with_live(names, lambda: self.block(s.body, e1, lambda e: Val('TUP', items=[self.need(e, v, s) for v in names]), lambda v, e: self.fail('return in fold', s))))
+            saved_c = (self.counter, tr.counter)
+            body = None
+            cand = [a.ty == 'I' for a in accs]
+            if any(cand) and self.effects:
+                # round 4: a counter that starts as an int literal and is only ever assigned ints (literals, run-time ints): a Z
+                tysZ = ['Z' if c else t for c, t in zip(cand, tys)]
+                try:
+                    b2 = run(tysZ)
+                    if b2.ty == 'TUP': bts = [tr.rtype(x) if x.ty != 'I' else 'Z' for x in b2.items]
+                    else:
+                        bt_ = tr.rtype(b2)
+                        bts = list(bt_[1]) if isinstance(bt_, tuple) and bt_[0] == 'T' and len(bt_[1]) == len(accs) else ([bt_] if len(accs) == 1 else [None] * len(accs))
+                    okZ = all((not c) or bts[i] == 'Z' for i, c in enumerate(cand))
+                except Untranslatable:
+                    okZ = False
+                if okZ: body, tys, accs = b2, tysZ, [Val('Z', self.Zt(a)) if c else a for c, a in zip(cand, accs)]
+                else: self.counter, tr.counter = saved_c
+            if body is None: body = run(tys)
             tys = self.refine_acc_types(tys, body)
             pat = None
             for nm in names: pat = inner[nm] if pat is None else f'({pat}, {inner[nm]})'
@@ -3093,7 +3943,7 @@ class FunTx:
         with 'fuel' the body may contain `while` loops and calls of fuelled functions (they all run on the function's budget):
         fold_option (None = out of fuel, Some <accumulators>), and with both effects fold_option_outcome."""
         tr = self.tr
-        if self.ctx_stack[-1] != 'fun' or self.pure_depth or not self.effects:
+        if self.ctx_stack[-1] not in ('fun', 'foldx') or self.pure_depth or not self.effects:
             self.fail('a loop whose body may raise / consume fuel, elsewhere than at statement level of a function declared with effects', s)
         fx_ = set(self.effects)
         comb = {('exc',): 'fold_outcome', ('fuel',): 'fold_option', ('exc', 'fuel'): 'fold_option_outcome'}[tuple(sorted(fx_))]
@@ -3104,7 +3954,22 @@ class FunTx:
         names = self.loop_names(s, rest, env, targets)
         if not names: self.fail('a loop whose body may raise and that carries no variable', s)
         accs = [self.need(env, v, s) for v in names]
-        tys = [tr.rtype(a) for a in accs]
+        def acc_type(v):
+            # round 4: an accumulator that starts as None is an Optional of what the body assigns to it
+            if v.ty == 'K' and v.const is None: return ('O', '?')
+            if v.ty == 'TUP': return ('T', tuple(acc_type(i) for i in v.items))
+            return tr.rtype(v)
+        def absorb(t, u):
+            m = tmatch(t, u)
+            if m is not None: return m
+            if isinstance(t, tuple) and t[0] == 'O' and not (isinstance(u, tuple) and u[0] == 'O'):
+                m = absorb(t[1], u)
+                return ('O', m) if m is not None else None
+            if isinstance(t, tuple) and isinstance(u, tuple) and t[0] == 'T' and u[0] == 'T' and len(t[1]) == len(u[1]):
+                ms = [absorb(x, y) for x, y in zip(t[1], u[1])]
+                return ('T', tuple(ms)) if all(m is not None for m in ms) else None
+            return None
+        tys = [acc_type(a) for a in accs]
         def unresolved(t):
             if t == '?': return True
             if isinstance(t, tuple) and t[0] == 'T': return any(unresolved(x) for x in t[1])
@@ -3139,7 +4004,7 @@ class FunTx:
             for row in seen:
                 for i, x in enumerate(row):
                     if x.tx is not None and x.tx == inner[names[i]]: continue
-                    m = tmatch(new[i], tr.rtype(x))
+                    m = absorb(new[i], acc_type(x))
                     if m is None: self.fail(f'loop changes the type of {names[i]}: {new[i]!r} / {tr.rtype(x)!r}', s)
                     new[i] = m
             if new == tys: break
@@ -3357,14 +4222,26 @@ PATH_TARGETS = [('BezierPath', 'length'), ('BezierPath', 'pointAtTime'), ('Bezie
 NODELIST_TARGETS = [('Node', 'x'), ('Node', 'y')] + [('SegmentRepresentation', m) for m in ('toNodelist', 'appendSegment', 'fromNodelist')]
 SPLIT_TARGETS = [('BezierPath', 'splitAtPoints'), ('BezierPath', 'addExtremes')]
 SWEEP_TARGETS = [('mod:utils/linesweep.py', 'dequefilter'), ('mod:utils/linesweep.py', 'bbox_intersections')]
+# round 4: the curve-curve recursion for the four pairs of curve classes (reached through _curve_curve_intersections), the dispatch for all nine pairs
+_CURVES = (('QuadraticBezier', 'seg3'), ('CubicBezier', 'seg4'))
+CURVECURVE_TARGETS = [(c, '_curve_curve_intersections', (('ty', t),)) for c, _ in _CURVES for _, t in _CURVES] + \
+                     [(c, 'intersections', (('ty', t),)) for c in ('Line', 'QuadraticBezier', 'CubicBezier') for t in ('seg2', 'seg3', 'seg4')]
 TARGETS += SHAPE_TARGETS + BOUNDS_TARGETS + SEGMENT_TARGETS + FIT_TARGETS + SAMPLE_TARGETS + PATH_TARGETS + NODELIST_TARGETS + SWEEP_TARGETS + SPLIT_TARGETS
+# round 4: minDist once, parametric in what it reads of the finder; curveDistance for the nine pairs of classes
+MINDIST_TARGETS = [('MinimumCurveDistanceFinder', 'minDist')] + \
+                  [('mod:utils/curvedistance.py', 'curveDistance', (('ty', a), ('ty', b))) for a in ('seg2', 'seg3', 'seg4') for b in ('seg2', 'seg3', 'seg4')]
+# round 4: the winding number
+WINDING_TARGETS = [('BezierPath', 'bounds'), ('BezierPath', 'windingNumberOfPoint'), ('BezierPath', 'pointIsInside')]
+TARGETS += CURVECURVE_TARGETS + MINDIST_TARGETS + WINDING_TARGETS
 
 # fixed text at the top of a generated file: the types and list helpers the effectful definitions are written with
 PRELUDE = {'Sample': '''(* A function with a data-dependent `while` loop takes [fuel : nat] -- the number of iterations EVERY loop invocation may
    use -- and returns an option: None = the fuel ran out (never a normal value).  A function that can raise one of the
    modelled Python exceptions returns an [outcome]; both: [option (outcome _)].  ZeroDivisionError is NOT modelled here:
    as everywhere in Gen, `/` is the total [dvd]. *)
-Inductive pyexc : Set := PyIndexError | PyValueError | PyOverflowError.
+Inductive pyexc : Set := PyIndexError | PyValueError | PyOverflowError
+  | PyAssertionError   (* a failing `assert` (the interpreter is not run with -O) *)
+  | PyNoneError.       (* None where an object is needed: CPython raises AttributeError or TypeError, the model does not say which *)
 Inductive outcome (A : Type) : Type := Returns (a : A) | Raises (e : pyexc).
 Arguments Returns {A}. Arguments Raises {A}.
 (* l[-1]; None = IndexError *)
@@ -3488,6 +4365,49 @@ Fixpoint fold_option {A B : Type} (f : A -> B -> option A) (l : list B) (a : A) 
   end.
 
 '''}
+
+PRELUDE['CurveCurve'] = '''(* utils/intersectionsmixin.py: the curve-curve subdivision.  [ranged]: a curved segment together with its `_range` attribute (a
+   list of two numbers); a segment as its constructor made it has the range its __init__ sets, [Ranged s 0 1].  The recursion
+   is a Fixpoint on [fuel], the number of nested calls still allowed ([None]: it ran out).  `"%.2f" % x` is the abstract
+   parameter [fmt_2f : T -> K], [keq] the equality of the strings it produces; the dict `seen` is the association list of
+   Gen/Split.v; the lazy `filter(filterSeen, found)` is the list it produces (tools/py2v.py, filter_idiom). *)
+Record ranged (A T : Type) := Ranged { rg_seg : A; rg_lo : T; rg_hi : T }.
+Arguments Ranged {A T}. Arguments rg_seg {A T}. Arguments rg_lo {A T}. Arguments rg_hi {A T}.
+
+'''
+PRELUDE['MinDist'] = '''(* utils/curvedistance.py: MinimumCurveDistanceFinder.minDist / curveDistance.  The finder is its mutable state (self.bestAlpha,
+   self.iterations): a method that updates it returns (value, new state).  What else the method reads of the object is a
+   parameter: len(self.bez1), len(self.bez2), the methods S and D (memo caches stripped; S and the table of D are generated
+   per pair of classes in Gen/CurveDist.v).  [fuel] is the number of nested calls still allowed. *)
+(* range(lo, hi) of run-time ints *)
+Definition range_Z (lo hi : Z) : list Z := map (fun i => (lo + Z.of_nat i)%Z) (seq 0 (Z.to_nat (hi - lo))).
+(* the tabulated D: outside the table the model FAILS (never a guess; Python computes D(r, k) for any r, k) *)
+Definition table_get {T : Type} (tbl : list (list T)) (r k : Z) : outcome T :=
+  if ((r <? 0) || (k <? 0))%Z then Raises PyIndexError else
+  match nth_error tbl (Z.to_nat r) with
+  | Some row => match nth_error row (Z.to_nat k) with Some d => Returns d | None => Raises PyIndexError end
+  | None => Raises PyIndexError
+  end.
+(* for x in l: <body that may raise and run out of fuel> *)
+Fixpoint fold_option_outcome {A B : Type} (f : A -> B -> option (outcome A)) (l : list B) (a : A) : option (outcome A) :=
+  match l with
+  | [] => Some (Returns a)
+  | b :: r => match f a b with
+              | None => None
+              | Some (Raises e) => Some (Raises e)
+              | Some (Returns a') => fold_option_outcome f r a'
+              end
+  end.
+
+'''
+PRELUDE['Winding'] = '''(* path/__init__.py: BezierPath.bounds / windingNumberOfPoint / pointIsInside.  An Intersection is kept together with its attribute
+   seg1: [(segment T * (T * pt T * T))], the definitions suffixed _ixs below.  The two dicts are keyed by Point VALUES: CPython
+   finds a stored key iff the hashes are equal and the keys are identical or stored.__eq__(new); with Point.__hash__ =
+   hash(x) << 32 ^ hash(y) (assumed injective on the pairs that occur) that is: equal coordinates as floats and Point.__eq__. *)
+Definition point_keyeq {T : Type} (O : Ops T) (stored k : pt T) : bool :=
+  eqb O (px stored) (px k) && eqb O (py stored) (py k) && Point___eq__ O stored k.
+
+'''
 
 
 def header(file, deps):
